@@ -18,9 +18,13 @@ theorem cmp_ne_lt (x y : Nat) : (compare x y ≠ Ordering.lt) ↔ y ≤ x := by
   · simp [Nat.compare_eq_gt.mpr h]; omega
 
 theorem cmpGe_iff (e a : Path) : cmpGe e a = true ↔
-    (e.lp < a.lp ∨ (a.lp = e.lp ∧ (b2n e.eb < b2n a.eb ∨ (b2n a.eb = b2n e.eb ∧
+    (b2n a.isLl < b2n e.isLl ∨ (b2n e.isLl = b2n a.isLl ∧
+    (e.lp < a.lp ∨ (a.lp = e.lp ∧
+    (a.asl < e.asl ∨ (e.asl = a.asl ∧
+    (a.org < e.org ∨ (e.org = a.org ∧
+    (b2n e.eb < b2n a.eb ∨ (b2n a.eb = b2n e.eb ∧
       (b2n a.stale < b2n e.stale ∨ (b2n e.stale = b2n a.stale ∧
-        (a.cl < e.cl ∨ (e.cl = a.cl ∧ a.rid ≤ e.rid)))))))) := by
+        (a.cl < e.cl ∨ (e.cl = a.cl ∧ a.rid ≤ e.rid)))))))))))))) := by
   unfold cmpGe cmpPath
   simp only [bne_iff_ne, then_ne_lt, cmp_ne_lt]
 
@@ -448,8 +452,35 @@ theorem chOK_restale {p : Pfx} {ps S : List Path} {bc anyUnf : Bool}
   · intro h
     rw [h, hbc h]
 
-theorem restalePaths_spec (p : Pfx) {ps : List Path} (k : Nat) (hs : Sorted ps) :
-    Sorted (restalePaths p ps k).1 ∧ ChOK p ps (restalePaths p ps k).1 (restalePaths p ps k).2 := by
+/-- marking (stale / LLGR-stale) the peer's paths, all of which are filtered, leaves the eligible
+    list alone even after re-sorting -/
+theorem eligible_sort_mark {ps : List Path} (k : Nat) (mark : Path → Path)
+    (hm : ∀ x, (mark x).flt = x.flt ∧ (mark x).inv = x.inv) (hs : Sorted ps)
+    (hany : (ps.any fun e => fromAddr k e && !e.flt) = false) :
+    eligible (sortPaths (ps.map fun e => if fromAddr k e then mark e else e)) = eligible ps := by
+  simp only [eligible_eq]
+  rw [filter_sortPaths]
+  have hmap : (ps.map fun e => if fromAddr k e then mark e else e).filter elig = ps.filter elig := by
+    apply filter_map_of_fix
+    intro x hx
+    by_cases hf : fromAddr k x = true
+    · right
+      have hflt : x.flt = true := by
+        cases h : x.flt
+        · exfalso
+          have : (ps.any fun e => fromAddr k e && !e.flt) = true :=
+            any_eq_true.mpr ⟨x, hx, by simp [hf, h]⟩
+          simp [this] at hany
+        · rfl
+      simp [elig, hf, hflt, (hm x).1]
+    · left; simp [hf]
+  rw [hmap]
+  exact sortPaths_of_sorted (hs.filter _)
+
+theorem restalePaths_spec (p : Pfx) {ps : List Path} (k : Nat) (mark : Path → Path)
+    (hm : ∀ x, (mark x).flt = x.flt ∧ (mark x).inv = x.inv) (hs : Sorted ps) :
+    Sorted (restalePaths p ps k mark).1 ∧
+      ChOK p ps (restalePaths p ps k mark).1 (restalePaths p ps k mark).2 := by
   unfold restalePaths
   split
   · exact ⟨hs, rfl⟩
@@ -459,24 +490,61 @@ theorem restalePaths_spec (p : Pfx) {ps : List Path} (k : Nat) (hs : Sorted ps) 
     · intro hbc hnil
       exact bestId_none.mp (bne_false_none hbc (bestId_none.mpr hnil))
     · intro _ hany
-      simp only [eligible_eq]
-      rw [filter_sortPaths]
-      have hmap : (ps.map fun e => if fromAddr k e then { e with stale := true } else e).filter elig = ps.filter elig := by
-        apply filter_map_of_fix
-        intro x hx
-        by_cases hf : fromAddr k x = true
-        · right
-          have hflt : x.flt = true := by
-            cases h : x.flt
-            · exfalso
-              have : (ps.any fun e => fromAddr k e && !e.flt) = true :=
-                any_eq_true.mpr ⟨x, hx, by simp [hf, h]⟩
-              simp [this] at hany
-            · rfl
-          simp [elig, hf, hflt]
-        · left; simp [hf]
-      rw [hmap]
-      exact sortPaths_of_sorted (hs.filter _)
+      exact eligible_sort_mark k mark hm hs hany
+
+/-- the changes `restale_llgr` reports for destination `p`: all carry the new eligible list, and if
+    none of them results in a request the eligible list is the old one -/
+def ChsOK (p : Pfx) (ps ps' : List Path) (chs : List Change) : Prop :=
+  (∀ c ∈ chs, c.pfx = p ∧ c.paths = eligible ps') ∧
+  ((∀ c ∈ chs, sent c = false) → eligible ps' = eligible ps)
+
+theorem restaleLlgrPaths_spec (p : Pfx) {ps : List Path} (k : Nat) (hs : Sorted ps) :
+    Sorted (restaleLlgrPaths p ps k).1 ∧ ChsOK p ps (restaleLlgrPaths p ps k).1 (restaleLlgrPaths p ps k).2 := by
+  unfold restaleLlgrPaths
+  split
+  · exact ⟨hs, by simp [ChsOK]⟩
+  · dsimp only
+    refine ⟨sortPaths_sorted _, ?_⟩
+    have hmark : ∀ x, (markLlgr x).flt = x.flt ∧ (markLlgr x).inv = x.inv := fun x => ⟨rfl, rfl⟩
+    have hel := eligible_sort_mark (ps := ps) k markLlgr hmark hs
+    generalize sortPaths (ps.map fun e => if fromAddr k e then markLlgr e else e) = S at hel ⊢
+    generalize (ps.any fun e => fromAddr k e && !e.flt) = anyUnf at hel ⊢
+    unfold llgrChanges
+    dsimp only
+    split
+    · -- nothing reported
+      rename_i hcond
+      have hc : ((bestId ps != bestId S) || headFrom k (eligible S)) = false ∧ anyUnf = false := by
+        simpa [Bool.or_eq_false_iff] using hcond
+      exact ⟨by simp, fun _ => hel hc.2⟩
+    · split
+      · -- one change, no eligible path of the peer
+        refine ⟨by intro c hc; simp at hc; subst hc; exact ⟨rfl, rfl⟩, ?_⟩
+        intro hall
+        have hsent := hall _ (mem_singleton.mpr rfl)
+        simp only [sent, Bool.or_eq_false_iff, Bool.and_eq_false_iff] at hsent
+        obtain ⟨⟨hbc1, _⟩, hrest⟩ := hsent
+        rcases hrest with h | h
+        · exact hel h
+        · have hnil := head?_isSome_false.mp h
+          rw [hnil, bestId_none.mp (bne_false_none hbc1 (bestId_none.mpr hnil))]
+      · -- one change per eligible path of the peer: the list is not empty, every change is sent
+        rename_i hn
+        refine ⟨?_, ?_⟩
+        · intro c hc
+          obtain ⟨i, _, rfl⟩ := mem_map.mp hc
+          exact ⟨rfl, rfl⟩
+        · intro hall
+          exfalso
+          have hpos : 0 < ((eligible S).filter (fromAddr k)).length := by
+            have : ((eligible S).filter (fromAddr k)).length ≠ 0 := by simpa using hn
+            omega
+          have hne : eligible S ≠ [] := by
+            intro h; rw [h] at hpos; simp at hpos
+          have := hall _ (mem_map.mpr ⟨0, by simpa using hpos, rfl⟩)
+          cases he : eligible S with
+          | nil => exact hne he
+          | cons b t => simp [sent, he] at this
 
 theorem Sorted.map_of_cmp {g : Path → Path} {l : List Path} (h : Sorted l)
     (hg : ∀ x y, cmpGe (g y) (g x) = cmpGe y x) : Sorted (l.map g) := by
@@ -484,12 +552,16 @@ theorem Sorted.map_of_cmp {g : Path → Path} {l : List Path} (h : Sorted l)
   rw [pairwise_map]
   exact h.imp (fun {a b} hab => by rw [hg]; exact hab)
 
-theorem cmpGe_congr {x y x' y' : Path}
-    (hx : x'.lp = x.lp ∧ x'.eb = x.eb ∧ x'.stale = x.stale ∧ x'.cl = x.cl ∧ x'.rid = x.rid)
-    (hy : y'.lp = y.lp ∧ y'.eb = y.eb ∧ y'.stale = y.stale ∧ y'.cl = y.cl ∧ y'.rid = y.rid) :
-    cmpGe y' x' = cmpGe y x := by
+/-- the fields the ranking reads -/
+def rankEq (x' x : Path) : Prop :=
+  x'.isLl = x.isLl ∧ x'.lp = x.lp ∧ x'.asl = x.asl ∧ x'.org = x.org ∧ x'.eb = x.eb ∧ x'.stale = x.stale ∧
+    x'.cl = x.cl ∧ x'.rid = x.rid
+
+theorem cmpGe_congr {x y x' y' : Path} (hx : rankEq x' x) (hy : rankEq y' y) : cmpGe y' x' = cmpGe y x := by
+  obtain ⟨a1, a2, a3, a4, a5, a6, a7, a8⟩ := hx
+  obtain ⟨b1, b2, b3, b4, b5, b6, b7, b8⟩ := hy
   unfold cmpGe cmpPath
-  rw [hx.1, hx.2.1, hx.2.2.1, hx.2.2.2.1, hx.2.2.2.2, hy.1, hy.2.1, hy.2.2.1, hy.2.2.2.1, hy.2.2.2.2]
+  rw [a1, a2, a3, a4, a5, a6, a7, a8, b1, b2, b3, b4, b5, b6, b7, b8]
 
 theorem validityPaths_spec (p : Pfx) {ps : List Path} (a : Addr) (r : Bool) (hs : Sorted ps) :
     Sorted (validityPaths p ps a r).1 ∧ ChOK p ps (validityPaths p ps a r).1 (validityPaths p ps a r).2 := by
@@ -500,7 +572,7 @@ theorem validityPaths_spec (p : Pfx) {ps : List Path} (a : Addr) (r : Bool) (hs 
   · refine ⟨?_, ?_⟩
     · apply hs.map_of_cmp
       intro x y
-      apply cmpGe_congr <;> (split <;> simp)
+      apply cmpGe_congr <;> (split <;> simp [rankEq, Path.isLl])
     · have := @chOK_mk p ps (ps.map fun e => if e.nh == a then { e with inv := !r } else e)
         (bestKey ps != bestKey (ps.map fun e => if e.nh == a then { e with inv := !r } else e)) true
         (by intro hbc hnil; exact bestKey_none.mp (bne_false_none hbc (bestKey_none.mpr hnil)))
@@ -570,6 +642,9 @@ theorem fibGet_replay (fib : Fib) (rs : List FibReq) (t : Nat) (q : Pfx) :
       by_cases hk : (r.table, r.pfx) = (t, q)
       · simp [hk]
       · simp [hk]
+
+theorem fibReplay_append (fib : Fib) (a b : List FibReq) :
+    fibReplay fib (a ++ b) = fibReplay (fibReplay fib a) b := by simp [fibReplay, foldl_append]
 
 theorem lastNhs_append (a b : List FibReq) (k : Key) :
     lastNhs (a ++ b) k = (lastNhs b k).or (lastNhs a k) := by
@@ -668,38 +743,152 @@ theorem owned_inj {p q : Pfx} {k : Key} (hp : owned p k) (hq : owned q k) : p = 
     · simp at h0'
   · rcases hq with rfl | ⟨hv', _, hl'⟩
     · simp at h0
-    · cases p; cases q
-      simp only [Pfx.isVpn, beq_iff_eq] at hv hv'
+    · cases p with | mk pf pi => cases q with | mk qf qi =>
+      simp only [Pfx.isVpn, Bool.or_eq_true, beq_iff_eq] at hv hv'
       simp only [Pfx.local] at hl hl'
       rw [hl] at hl'
-      simp_all
+      simp only [Pfx.mk.injEq] at hl' ⊢
+      rcases hv with rfl | rfl <;> rcases hv' with rfl | rfl <;> simp_all
 
 theorem changeNhs_eq (c : Change) : changeNhs c = want c.paths := by
   unfold changeNhs
   cases h : c.paths <;> simp [want, ecmpPaths]
 
+/-- what a VRF's table holds for eligible list `E`: the ECMP next hops when the best path is imported -/
+def vrfWant (v : Vrf) (E : List Path) : List Addr :=
+  match E with
+  | b :: _ => if canImport v b.rts then want E else []
+  | [] => []
+
+theorem vrfNhs_eq (v : Vrf) (c : Change) :
+    (if bestImports v c then changeNhs c else []) = vrfWant v c.paths := by
+  rw [changeNhs_eq]
+  unfold bestImports vrfWant
+  cases h : c.paths <;> simp <;> rfl
+
+theorem vrfsDistinct_inj {l : List Vrf} (h : vrfsDistinct l = true) {v w : Vrf} (hv : v ∈ l) (hw : w ∈ l)
+    (ht : v.tid = w.tid) (h0 : v.tid ≠ 0) : v = w := by
+  induction l with
+  | nil => simp at hv
+  | cons a t ih =>
+    simp only [vrfsDistinct, Bool.and_eq_true, Bool.or_eq_true, beq_iff_eq, all_eq_true, bne_iff_ne] at h
+    rcases mem_cons.mp hv with hva | hvt
+    · rcases mem_cons.mp hw with hwa | hwt
+      · rw [hva, hwa]
+      · rcases h.1 with h1 | h1
+        · exact absurd (hva ▸ h1) h0
+        · exact absurd (hva ▸ ht).symm (h1 w hwt)
+    · rcases mem_cons.mp hw with hwa | hwt
+      · rcases h.1 with h1 | h1
+        · exact absurd (ht ▸ hwa ▸ h1) h0
+        · exact absurd (hwa ▸ ht) (h1 v hvt)
+      · exact ih h.2 hvt hwt
+
 theorem distribute_all_apply (cfg : Cfg) (c : Change) :
-    ∀ r ∈ distribute cfg c, ∃ t q, r = Req.apply t q (want c.paths) ∧ owned c.pfx (t, q) ∧ sent c = true := by
+    ∀ r ∈ distribute cfg c, sent c = true ∧
+      (r = Req.apply 0 c.pfx (want c.paths) ∨
+       (c.pfx.isVpn = true ∧ ∃ v ∈ cfg.vrfs, v.tid ≠ 0 ∧ r = Req.apply v.tid c.pfx.local (vrfWant v c.paths))) := by
   intro r hr
   unfold distribute at hr
   split at hr
   · rename_i hs
+    refine ⟨hs, ?_⟩
     rw [changeNhs_eq] at hr
     rcases mem_cons.mp hr with rfl | hr
-    · exact ⟨0, c.pfx, rfl, Or.inl rfl, hs⟩
-    · split at hr
+    · left; rfl
+    · right
+      split at hr
       · rename_i hv
-        obtain ⟨v, _, hv2⟩ := mem_filterMap.mp hr
+        obtain ⟨v, hvm, hv2⟩ := mem_filterMap.mp hr
         split at hv2
         · simp at hv2
         · rename_i ht
-          split at hv2
-          · simp only [Option.some.injEq] at hv2
-            subst hv2
-            exact ⟨v.tid, c.pfx.local, rfl, Or.inr ⟨hv, by simpa using ht, rfl⟩, hs⟩
-          · simp at hv2
+          simp only [Option.some.injEq] at hv2
+          subst hv2
+          exact ⟨hv, v, hvm, by simpa using ht, by rw [← changeNhs_eq, vrfNhs_eq]⟩
       · simp at hr
   · simp at hr
+
+theorem distribute_owned (cfg : Cfg) (c : Change) :
+    ∀ r ∈ fibReqs (distribute cfg c), owned c.pfx (r.table, r.pfx) := by
+  intro r hr
+  obtain ⟨_, h | ⟨hv, v, _, ht, h⟩⟩ := distribute_all_apply cfg c _ (mem_fibReqs.mp hr)
+  · simp only [Req.apply.injEq] at h
+    rw [h.1, h.2.1]; exact Or.inl rfl
+  · simp only [Req.apply.injEq] at h
+    rw [h.1, h.2.1]; exact Or.inr ⟨hv, ht, rfl⟩
+
+/-- a request goes to the main table or to the table of a configured VRF, for an IPv4/IPv6 prefix -/
+def goodKey (cfg : Cfg) (k : Key) : Prop :=
+  k.1 = 0 ∨ ((cfg.vrfs.any (fun v => v.tid == k.1)) = true ∧ k.2.fam ≤ 1)
+
+theorem distribute_good (cfg : Cfg) (c : Change) :
+    ∀ r ∈ fibReqs (distribute cfg c), goodKey cfg (r.table, r.pfx) := by
+  intro r hr
+  obtain ⟨_, h | ⟨_, v, hv, _, h⟩⟩ := distribute_all_apply cfg c _ (mem_fibReqs.mp hr)
+  · simp only [Req.apply.injEq] at h
+    left; exact h.1
+  · simp only [Req.apply.injEq] at h
+    right
+    refine ⟨any_eq_true.mpr ⟨v, hv, by simp [h.1]⟩, ?_⟩
+    rw [h.2.1]; simp only [Pfx.local]; split <;> omega
+
+theorem fibReplay_keys {cfg : Cfg} (rs : List FibReq) :
+    ∀ fib : Fib, (∀ e ∈ fib, goodKey cfg e.1) → (∀ r ∈ rs, goodKey cfg (r.table, r.pfx)) →
+      ∀ e ∈ fibReplay fib rs, goodKey cfg e.1 := by
+  induction rs with
+  | nil => intro fib h _; simpa [fibReplay] using h
+  | cons r rs ih =>
+    intro fib h hr
+    have : fibReplay fib (r :: rs) = fibReplay (fibApply fib r) rs := by simp [fibReplay]
+    rw [this]
+    apply ih _ _ (fun x hx => hr x (by simp [hx]))
+    intro e he
+    unfold fibApply at he
+    rcases mem_cons.mp he with rfl | he
+    · exact hr r (by simp)
+    · exact h e (mem_filter.mp he).1
+
+/-- every replayed request leaves an entry with its key -/
+theorem fibReplay_mem_key (rs : List FibReq) : ∀ fib : Fib, ∀ r ∈ rs, ∃ e ∈ fibReplay fib rs, e.1 = (r.table, r.pfx) := by
+  induction rs with
+  | nil => intro fib r hr; simp at hr
+  | cons x rs ih =>
+    intro fib r hr
+    have e0 : fibReplay fib (x :: rs) = fibReplay (fibApply fib x) rs := by simp [fibReplay]
+    rw [e0]
+    rcases mem_cons.mp hr with rfl | hr
+    · -- the entry of `r` survives unless overwritten by a later request with the same key
+      have : ∀ (rs : List FibReq) (f : Fib), (∃ e ∈ f, e.1 = (r.table, r.pfx)) →
+          ∃ e ∈ fibReplay f rs, e.1 = (r.table, r.pfx) := by
+        intro rs
+        induction rs with
+        | nil => intro f h; simpa [fibReplay] using h
+        | cons y ys ihy =>
+          intro f ⟨e, he, hk⟩
+          have e1 : fibReplay f (y :: ys) = fibReplay (fibApply f y) ys := by simp [fibReplay]
+          rw [e1]
+          apply ihy
+          by_cases hy : (y.table, y.pfx) = (r.table, r.pfx)
+          · exact ⟨((y.table, y.pfx), y.nhs), by simp [fibApply], hy⟩
+          · refine ⟨e, ?_, hk⟩
+            unfold fibApply
+            apply mem_cons_of_mem
+            apply mem_filter.mpr
+            refine ⟨he, ?_⟩
+            rw [hk]
+            have : ((r.table, r.pfx) == (y.table, y.pfx)) = false := by
+              apply beq_eq_false_iff_ne.mpr; exact fun e => hy e.symm
+            simp [this]
+      exact this rs _ ⟨((r.table, r.pfx), r.nhs), by simp [fibApply], rfl⟩
+    · exact ih _ r hr
+
+theorem fibReplay_reqs_good {cfg : Cfg} (reqs : List Req) (fib : Fib)
+    (h : ∀ e ∈ fibReplay fib (fibReqs reqs), goodKey cfg e.1) :
+    ∀ r ∈ fibReqs reqs, goodKey cfg (r.table, r.pfx) := by
+  intro r hr
+  obtain ⟨e, he, hk⟩ := fibReplay_mem_key (fibReqs reqs) fib r hr
+  rw [← hk]; exact h e he
 
 theorem distribute_main_mem (cfg : Cfg) (c : Change) (hs : sent c = true) :
     Req.apply 0 c.pfx (want c.paths) ∈ distribute cfg c := by
@@ -709,50 +898,54 @@ theorem distribute_main_mem (cfg : Cfg) (c : Change) (hs : sent c = true) :
   simp
 
 theorem distribute_vrf_mem (cfg : Cfg) (c : Change) (hs : sent c = true) (hv : c.pfx.isVpn = true)
-    {v : Vrf} (hmem : v ∈ cfg.vrfs) (ht : v.tid ≠ 0)
-    (hc : want c.paths = [] ∨ ∃ b t, c.paths = b :: t ∧ canImport v b.rts = true) :
-    Req.apply v.tid c.pfx.local (want c.paths) ∈ distribute cfg c := by
+    {v : Vrf} (hmem : v ∈ cfg.vrfs) (ht : v.tid ≠ 0) :
+    Req.apply v.tid c.pfx.local (vrfWant v c.paths) ∈ distribute cfg c := by
   unfold distribute
   have hs' : (c.bestChanged || c.anyChanged && c.paths.head?.isSome) = true := hs
-  simp only [hs', if_true, changeNhs_eq, hv]
+  simp only [hs', if_true, hv]
   apply mem_cons_of_mem
   apply mem_filterMap.mpr
   refine ⟨v, hmem, ?_⟩
   have ht' : (v.tid == 0) = false := by simpa using ht
-  simp only [ht', Bool.false_eq_true, if_false]
-  rcases hc with hc | ⟨b, t, hc, himp⟩
-  · simp [hc]
-  · simp [bestImports, hc, himp]
+  simp only [ht', Bool.false_eq_true, if_false, vrfNhs_eq]
 
-/-- Effect of replaying the FIB requests of one change on any cell. -/
-theorem fibGet_distribute (cfg : Cfg) (fib : Fib) (c : Change) (t : Nat) (q : Pfx) :
-    fibGet (fibReplay fib (fibReqs (distribute cfg c))) t q =
-      if Req.apply t q (want c.paths) ∈ distribute cfg c then want c.paths else fibGet fib t q := by
+/-- after replaying the requests of a sent change the main-table cell holds the ECMP next hops -/
+theorem fibGet_distribute_main (cfg : Cfg) (fib : Fib) (c : Change) (hs : sent c = true) :
+    fibGet (fibReplay fib (fibReqs (distribute cfg c))) 0 c.pfx = want c.paths := by
   rw [fibGet_replay]
-  have hconst : ∀ r ∈ fibReqs (distribute cfg c), (r.table, r.pfx) = (t, q) → r.nhs = want c.paths := by
-    intro r hr _
-    obtain ⟨t', q', he, _, _⟩ := distribute_all_apply cfg c _ (mem_fibReqs.mp hr)
-    simp only [Req.apply.injEq] at he
-    exact he.2.2
+  have hconst : ∀ r ∈ fibReqs (distribute cfg c), (r.table, r.pfx) = (0, c.pfx) → r.nhs = want c.paths := by
+    intro r hr hk
+    obtain ⟨_, h | ⟨_, v, _, ht, h⟩⟩ := distribute_all_apply cfg c _ (mem_fibReqs.mp hr)
+    · simp only [Req.apply.injEq] at h; exact h.2.2
+    · simp only [Req.apply.injEq] at h
+      simp only [Prod.mk.injEq] at hk
+      exact absurd (h.1 ▸ hk.1) ht
   rw [lastNhs_const hconst]
-  by_cases hm : Req.apply t q (want c.paths) ∈ distribute cfg c
-  · have : (fibReqs (distribute cfg c)).any (fun r => (r.table, r.pfx) == (t, q)) = true := by
-      apply any_eq_true.mpr
-      exact ⟨⟨t, q, want c.paths⟩, mem_fibReqs.mpr hm, by simp⟩
-    simp [this, hm]
-  · have : (fibReqs (distribute cfg c)).any (fun r => (r.table, r.pfx) == (t, q)) = false := by
-      apply Bool.eq_false_iff.mpr
-      intro h
-      obtain ⟨r, hr, hk⟩ := any_eq_true.mp h
-      have hk' : (r.table, r.pfx) = (t, q) := by simpa using hk
-      have hn := hconst r hr hk'
-      apply hm
-      have := mem_fibReqs.mp hr
-      simp only [Prod.mk.injEq] at hk'
-      rw [hk'.1, hk'.2, hn] at this
-      exact this
-    simp [this, hm]
+  have : (fibReqs (distribute cfg c)).any (fun r => (r.table, r.pfx) == (0, c.pfx)) = true :=
+    any_eq_true.mpr ⟨⟨0, c.pfx, want c.paths⟩, mem_fibReqs.mpr (distribute_main_mem cfg c hs), by simp⟩
+  simp [this]
 
+/-- ... and the cell of every VRF with a table holds them when the VRF imports the best path and
+    nothing otherwise -/
+theorem fibGet_distribute_vrf (cfg : Cfg) (hd : vrfsDistinct cfg.vrfs = true) (fib : Fib) (c : Change)
+    (hs : sent c = true) (hv : c.pfx.isVpn = true) {v : Vrf} (hm : v ∈ cfg.vrfs) (ht : v.tid ≠ 0) :
+    fibGet (fibReplay fib (fibReqs (distribute cfg c))) v.tid c.pfx.local = vrfWant v c.paths := by
+  rw [fibGet_replay]
+  have hconst : ∀ r ∈ fibReqs (distribute cfg c), (r.table, r.pfx) = (v.tid, c.pfx.local) →
+      r.nhs = vrfWant v c.paths := by
+    intro r hr hk
+    simp only [Prod.mk.injEq] at hk
+    obtain ⟨_, h | ⟨_, w, hw, _, h⟩⟩ := distribute_all_apply cfg c _ (mem_fibReqs.mp hr)
+    · simp only [Req.apply.injEq] at h
+      exact absurd (hk.1 ▸ h.1) ht
+    · simp only [Req.apply.injEq] at h
+      have : v = w := vrfsDistinct_inj hd hm hw (by rw [← hk.1, h.1]) ht
+      rw [this]; exact h.2.2
+  rw [lastNhs_const hconst]
+  have : (fibReqs (distribute cfg c)).any (fun r => (r.table, r.pfx) == (v.tid, c.pfx.local)) = true :=
+    any_eq_true.mpr ⟨⟨v.tid, c.pfx.local, vrfWant v c.paths⟩,
+      mem_fibReqs.mpr (distribute_vrf_mem cfg c hs hv hm ht), by simp⟩
+  simp [this]
 
 -- ---------------------------------------------------------------- FIB cells of one prefix
 
@@ -760,33 +953,36 @@ theorem fibGet_distribute (cfg : Cfg) (fib : Fib) (c : Change) (t : Nat) (q : Pf
     prefix every VRF with a table. -/
 structure CellsOK (cfg : Cfg) (fib : Fib) (p : Pfx) (E : List Path) : Prop where
   main : fibGet fib 0 p = want E
-  vrfNil : p.isVpn = true → E = [] → ∀ v ∈ cfg.vrfs, v.tid ≠ 0 → fibGet fib v.tid p.local = []
-  vrfImp : p.isVpn = true → ∀ b t, E = b :: t → ∀ v ∈ cfg.vrfs, v.tid ≠ 0 →
-    canImport v b.rts = true → fibGet fib v.tid p.local = want E
+  vrf : p.isVpn = true → ∀ v ∈ cfg.vrfs, v.tid ≠ 0 → fibGet fib v.tid p.local = vrfWant v E
 
 /-- `CellsOK` only reads the cells owned by the prefix. -/
 theorem CellsOK.transfer {cfg : Cfg} {fib fib' : Fib} {p : Pfx} {E : List Path} (h : CellsOK cfg fib p E)
     (hag : ∀ k, owned p k → fibGet fib' k.1 k.2 = fibGet fib k.1 k.2) : CellsOK cfg fib' p E := by
-  refine ⟨?_, ?_, ?_⟩
+  refine ⟨?_, ?_⟩
   · rw [hag (0, p) (Or.inl rfl)]; exact h.main
-  · intro hv he v hm ht
-    rw [hag (v.tid, p.local) (Or.inr ⟨hv, ht, rfl⟩)]; exact h.vrfNil hv he v hm ht
-  · intro hv b t he v hm ht hi
-    rw [hag (v.tid, p.local) (Or.inr ⟨hv, ht, rfl⟩)]; exact h.vrfImp hv b t he v hm ht hi
+  · intro hv v hm ht
+    rw [hag (v.tid, p.local) (Or.inr ⟨hv, ht, rfl⟩)]; exact h.vrf hv v hm ht
 
 theorem distOpt_owned (cfg : Cfg) {p : Pfx} {ps ps' : List Path} {ch : Option Change} (hc : ChOK p ps ps' ch) :
     ∀ r ∈ fibReqs (distOpt cfg ch), owned p (r.table, r.pfx) := by
   intro r hr
   cases ch with
   | none => simp [distOpt, fibReqs] at hr
-  | some c =>
-    obtain ⟨t, q, he, ho, _⟩ := distribute_all_apply cfg c _ (mem_fibReqs.mp hr)
-    simp only [Req.apply.injEq] at he
-    rw [he.1, he.2.1, ← hc.1]; exact ho
+  | some c => rw [← hc.1]; exact distribute_owned cfg c r hr
+
+/-- Replaying the FIB requests of one change that carries eligible list `E'` of destination `p`. -/
+theorem cells_distribute (cfg : Cfg) (hd : vrfsDistinct cfg.vrfs = true) {fib : Fib} {c : Change}
+    (hs : sent c = true) : CellsOK cfg (fibReplay fib (fibReqs (distribute cfg c))) c.pfx c.paths :=
+  ⟨fibGet_distribute_main cfg fib c hs, fun hv _ hm ht => fibGet_distribute_vrf cfg hd fib c hs hv hm ht⟩
+
+theorem distribute_unsent (cfg : Cfg) {c : Change} (hs : sent c = false) : distribute cfg c = [] := by
+  unfold distribute
+  have : (c.bestChanged || c.anyChanged && c.paths.head?.isSome) = false := hs
+  simp [this]
 
 /-- Replaying the FIB requests caused by a change of destination `p` re-establishes `CellsOK`. -/
-theorem cells_distOpt (cfg : Cfg) {fib : Fib} {p : Pfx} {ps ps' : List Path} {ch : Option Change}
-    (hc : ChOK p ps ps' ch) (h : CellsOK cfg fib p (eligible ps)) :
+theorem cells_distOpt (cfg : Cfg) (hd : vrfsDistinct cfg.vrfs = true) {fib : Fib} {p : Pfx} {ps ps' : List Path}
+    {ch : Option Change} (hc : ChOK p ps ps' ch) (h : CellsOK cfg fib p (eligible ps)) :
     CellsOK cfg (fibReplay fib (fibReqs (distOpt cfg ch))) p (eligible ps') := by
   cases ch with
   | none =>
@@ -797,25 +993,11 @@ theorem cells_distOpt (cfg : Cfg) {fib : Fib} {p : Pfx} {ps ps' : List Path} {ch
     simp only [distOpt]
     cases hs : sent c with
     | false =>
-      have hnil : distribute cfg c = [] := by
-        unfold distribute
-        have : (c.bestChanged || c.anyChanged && c.paths.head?.isSome) = false := hs
-        simp [this]
-      rw [hnil, hun hs]; simpa [fibReqs, fibReplay] using h
+      rw [distribute_unsent cfg hs, hun hs]; simpa [fibReqs, fibReplay] using h
     | true =>
       subst hp
       rw [← hpaths]
-      refine ⟨?_, ?_, ?_⟩
-      · rw [fibGet_distribute]; simp [distribute_main_mem cfg c hs]
-      · intro hv he v hm ht
-        rw [fibGet_distribute]
-        have := distribute_vrf_mem cfg c hs hv hm ht (Or.inl (by rw [he]; rfl))
-        rw [if_pos this, he]; rfl
-      · intro hv b t he v hm ht hi
-        rw [fibGet_distribute]
-        have := distribute_vrf_mem cfg c hs hv hm ht (Or.inr ⟨b, t, he, hi⟩)
-        simp [this]
-
+      exact cells_distribute cfg hd hs
 
 -- ---------------------------------------------------------------- reference counts
 
@@ -923,12 +1105,16 @@ theorem refReplay_unregs {refs : Refs} {c : Addr → Nat} (l : List Addr)
     unreachable -/
 def FlagsOK (unr : List Addr) (ps : List Path) : Prop := ∀ x ∈ ps, x.inv = unr.contains x.nh
 
+/-- the eligible list as far as the FIB is concerned: nothing while the family is deferring -/
+def visE (dfr : Bool) (ps : List Path) : List Path := if dfr then [] else eligible ps
+
 /-- What one operation on destination `p` (paths `ps` ↦ `ps'`, requests `reqs`) preserves. -/
-structure LocalOK (cfg : Cfg) (unr' : List Addr) (p : Pfx) (ps ps' : List Path) (reqs : List Req) : Prop where
+structure LocalOK (cfg : Cfg) (dfr dfr' : Bool) (unr' : List Addr) (p : Pfx) (ps ps' : List Path) (reqs : List Req) : Prop where
   sorted : Sorted ps'
   flags : FlagsOK unr' ps'
-  cells : ∀ fib, CellsOK cfg fib p (eligible ps) → CellsOK cfg (fibReplay fib (fibReqs reqs)) p (eligible ps')
+  cells : ∀ fib, CellsOK cfg fib p (visE dfr ps) → CellsOK cfg (fibReplay fib (fibReqs reqs)) p (visE dfr' ps')
   owned : ∀ r ∈ fibReqs reqs, owned p (r.table, r.pfx)
+  good : ∀ r ∈ fibReqs reqs, goodKey cfg (r.table, r.pfx)
   refs : ∀ (refs : Refs) (K : Addr → Nat), (∀ a, refGet refs a = usesPaths a ps + K a) →
     ∃ refs', refReplay refs (nhtReqs reqs) = some refs' ∧ ∀ a, refGet refs' a = usesPaths a ps' + K a
 
@@ -939,6 +1125,12 @@ theorem samePath_isPeer {src pid : Nat} {r : Path} (h : samePath src pid r = tru
   cases hr : isPeer r.src <;> cases hs : isPeer src <;> simp [hr, hs] at h1 ⊢
   · rw [← h1] at hs; simp [isPeer, srcLocal] at hs
   · rw [h1] at hr; simp [isPeer, srcLocal] at hr
+
+theorem fromAddr_isPeer {k : Nat} (hk : k < 100) {x : Path} (h : fromAddr k x = true) : isPeer x.src = true := by
+  unfold fromAddr addrKey at h
+  cases hp : isPeer x.src
+  · simp [hp, srcLocal] at h; omega
+  · rfl
 
 theorem insertPaths_fst (p : Pfx) (ps : List Path) (e : Path) :
     (insertPaths p ps e).1 = match extract (samePath e.src e.pid) ps with
@@ -985,14 +1177,44 @@ theorem fibReqs_nhtRegister (src : Nat) (nh : Addr) (old : Option Addr) : fibReq
   unfold nhtRegister
   cases isPeer src <;> cases old <;> simp [fibReqs]
 
-theorem nhtReqs_distOpt (cfg : Cfg) (ch : Option Change) : nhtReqs (distOpt cfg ch) = [] := by
-  cases ch with
-  | none => simp [distOpt, nhtReqs]
-  | some c =>
-    apply nhtReqs_nil_of_apply
-    intro r hr
-    obtain ⟨t, q, he, _⟩ := distribute_all_apply cfg c r hr
-    exact ⟨t, q, _, he⟩
+theorem nhtReqs_distribute (cfg : Cfg) (c : Change) : nhtReqs (distribute cfg c) = [] := by
+  apply nhtReqs_nil_of_apply
+  intro r hr
+  obtain ⟨_, h | ⟨_, v, _, _, h⟩⟩ := distribute_all_apply cfg c r hr
+  · exact ⟨_, _, _, h⟩
+  · exact ⟨_, _, _, h⟩
+
+theorem nhtReqs_distD (cfg : Cfg) (dfr : Bool) (ch : Option Change) : nhtReqs (distD cfg dfr ch) = [] := by
+  unfold distD
+  cases dfr
+  · cases ch with
+    | none => simp [distOpt, nhtReqs]
+    | some c => simpa [distOpt] using nhtReqs_distribute cfg c
+  · simp [nhtReqs]
+
+theorem distD_owned (cfg : Cfg) (dfr : Bool) {p : Pfx} {ps ps' : List Path} {ch : Option Change}
+    (hc : ChOK p ps ps' ch) : ∀ r ∈ fibReqs (distD cfg dfr ch), owned p (r.table, r.pfx) := by
+  unfold distD
+  cases dfr
+  · exact distOpt_owned cfg hc
+  · simp [fibReqs]
+
+theorem distD_good (cfg : Cfg) (dfr : Bool) (ch : Option Change) :
+    ∀ r ∈ fibReqs (distD cfg dfr ch), goodKey cfg (r.table, r.pfx) := by
+  unfold distD
+  cases dfr
+  · cases ch with
+    | none => simp [distOpt, fibReqs]
+    | some c => exact distribute_good cfg c
+  · simp [fibReqs]
+
+theorem cells_distD (cfg : Cfg) (hd : vrfsDistinct cfg.vrfs = true) (dfr : Bool) {fib : Fib} {p : Pfx}
+    {ps ps' : List Path} {ch : Option Change} (hc : ChOK p ps ps' ch) (h : CellsOK cfg fib p (visE dfr ps)) :
+    CellsOK cfg (fibReplay fib (fibReqs (distD cfg dfr ch))) p (visE dfr ps') := by
+  unfold distD
+  cases dfr
+  · exact cells_distOpt cfg hd hc h
+  · simpa [visE, fibReqs, fibReplay] using h
 
 theorem FlagsOK.insert {unr : List Addr} {e : Path} {l : List Path} (he : e.inv = unr.contains e.nh)
     (h : FlagsOK unr l) : FlagsOK unr (insertSorted e l) := by
@@ -1006,7 +1228,7 @@ theorem FlagsOK.subset {unr : List Addr} {l l' : List Path} (hs : ∀ x ∈ l', 
 
 /-- Core of `insert_route` and of one soft-reset re-insertion: path `e` (flag consistent with the
     reports) is inserted, `nht` being the tracking requests issued for it. -/
-theorem insertLike_local (cfg : Cfg) {unr : List Addr} (p : Pfx) {ps : List Path} (e : Path) (nht : List Req)
+theorem insertLike_local (cfg : Cfg) (hd : vrfsDistinct cfg.vrfs = true) (dfr : Bool) {unr : List Addr} (p : Pfx) {ps : List Path} (e : Path) (nht : List Req)
     (hs : Sorted ps) (hf : FlagsOK unr ps) (he : e.inv = unr.contains e.nh)
     (hnf : fibReqs nht = [])
     (hnht : ∀ (refs : Refs) (c : Addr → Nat),
@@ -1014,9 +1236,9 @@ theorem insertLike_local (cfg : Cfg) {unr : List Addr} (p : Pfx) {ps : List Path
           | some o => if isPeer e.src = true ∧ o = a then 1 else 0 | none => 0)) →
       ∃ refs', refReplay refs (nhtReqs nht) = some refs' ∧
         ∀ a, refGet refs' a = c a + (if isPeer e.src = true ∧ e.nh = a then 1 else 0)) :
-    LocalOK cfg unr p ps (insertPaths p ps e).1 (nht ++ distOpt cfg (insertPaths p ps e).2) := by
+    LocalOK cfg dfr dfr unr p ps (insertPaths p ps e).1 (nht ++ distD cfg dfr (insertPaths p ps e).2) := by
   obtain ⟨hsorted, hch⟩ := insertPaths_spec p e hs
-  refine ⟨hsorted, ?_, ?_, ?_, ?_⟩
+  refine ⟨hsorted, ?_, ?_, ?_, ?_, ?_⟩
   · rw [insertPaths_fst]
     cases hx : extract (samePath e.src e.pid) ps with
     | none => exact hf.insert he
@@ -1025,26 +1247,30 @@ theorem insertLike_local (cfg : Cfg) {unr : List Addr} (p : Pfx) {ps : List Path
       exact (hf.subset (extract_mem hx).2).insert he
   · intro fib hc
     rw [fibReqs_append, hnf, nil_append]
-    exact cells_distOpt cfg hch hc
+    exact cells_distD cfg hd dfr hch hc
   · intro r hr
     rw [fibReqs_append, hnf, nil_append] at hr
-    exact distOpt_owned cfg hch r hr
+    exact distD_owned cfg dfr hch r hr
+  · intro r hr
+    rw [fibReqs_append, hnf, nil_append] at hr
+    exact distD_good cfg dfr _ r hr
   · intro refs K hr
-    rw [nhtReqs_append, nhtReqs_distOpt, append_nil]
+    rw [nhtReqs_append, nhtReqs_distD, append_nil]
     obtain ⟨base, hb1, hb2⟩ := insertPaths_uses p ps e
     obtain ⟨refs', h1, h2⟩ := hnht refs (fun a => base a + K a) (by intro a; rw [hr a, hb1 a]; omega)
     exact ⟨refs', h1, by intro a; rw [h2 a, hb2 a]; omega⟩
 
 
-theorem LocalOK.refl (cfg : Cfg) {unr : List Addr} (p : Pfx) {ps : List Path} (hs : Sorted ps) (hf : FlagsOK unr ps) :
-    LocalOK cfg unr p ps ps [] :=
-  ⟨hs, hf, fun fib h => by simpa [fibReqs, fibReplay] using h, by simp [fibReqs],
+theorem LocalOK.refl (cfg : Cfg) (dfr : Bool) {unr : List Addr} (p : Pfx) {ps : List Path} (hs : Sorted ps) (hf : FlagsOK unr ps) :
+    LocalOK cfg dfr dfr unr p ps ps [] :=
+  ⟨hs, hf, fun fib h => by simpa [fibReqs, fibReplay] using h, by simp [fibReqs], by simp [fibReqs],
    fun refs K h => ⟨refs, by simp [nhtReqs, refReplay], h⟩⟩
 
-theorem LocalOK.trans {cfg : Cfg} {unr : List Addr} {p : Pfx} {ps ps1 ps2 : List Path} {r1 r2 : List Req}
-    (h1 : LocalOK cfg unr p ps ps1 r1) (h2 : LocalOK cfg unr p ps1 ps2 r2) :
-    LocalOK cfg unr p ps ps2 (r1 ++ r2) := by
-  refine ⟨h2.sorted, h2.flags, ?_, ?_, ?_⟩
+theorem LocalOK.trans {cfg : Cfg} {d1 d2 d3 : Bool} {unr : List Addr} {p : Pfx} {ps ps1 ps2 : List Path}
+    {r1 r2 : List Req}
+    (h1 : LocalOK cfg d1 d2 unr p ps ps1 r1) (h2 : LocalOK cfg d2 d3 unr p ps1 ps2 r2) :
+    LocalOK cfg d1 d3 unr p ps ps2 (r1 ++ r2) := by
+  refine ⟨h2.sorted, h2.flags, ?_, ?_, ?_, ?_⟩
   · intro fib hc
     have := h2.cells _ (h1.cells fib hc)
     simpa [fibReqs_append, fibReplay, foldl_append] using this
@@ -1053,19 +1279,25 @@ theorem LocalOK.trans {cfg : Cfg} {unr : List Addr} {p : Pfx} {ps ps1 ps2 : List
     rcases mem_append.mp hr with hr | hr
     · exact h1.owned r hr
     · exact h2.owned r hr
+  · intro r hr
+    rw [fibReqs_append] at hr
+    rcases mem_append.mp hr with hr | hr
+    · exact h1.good r hr
+    · exact h2.good r hr
   · intro refs K hr
     obtain ⟨refs1, e1, g1⟩ := h1.refs refs K hr
     obtain ⟨refs2, e2, g2⟩ := h2.refs refs1 K g1
     exact ⟨refs2, by rw [nhtReqs_append, refReplay_append, e1]; exact e2, g2⟩
 
-theorem insertDest_local (cfg : Cfg) {unr : List Addr} (policy : Policy) (invalid : List Addr) (p : Pfx)
-    {ps : List Path} (src sid pid : Nat) (nh0 : Addr) (lp cl : Nat) (rts : List Nat) (fresh : Nat)
+theorem insertDest_local (cfg : Cfg) (hd : vrfsDistinct cfg.vrfs = true) (dfr : Bool) {unr : List Addr}
+    (policy : Policy) (invalid : List Addr) (p : Pfx)
+    {ps : List Path} (src sid pid : Nat) (nh0 : Addr) (att : Attrs) (fresh : Nat)
     (hs : Sorted ps) (hf : FlagsOK unr ps) (hinv : ∀ a, invalid.contains a = unr.contains a) :
-    LocalOK cfg unr p ps (insertDest cfg policy invalid p ps src sid pid nh0 lp cl rts fresh).1
-      (insertDest cfg policy invalid p ps src sid pid nh0 lp cl rts fresh).2 := by
+    LocalOK cfg dfr dfr unr p ps (insertDest cfg dfr policy invalid p ps src sid pid nh0 att fresh).1
+      (insertDest cfg dfr policy invalid p ps src sid pid nh0 att fresh).2 := by
   unfold insertDest
   dsimp only
-  apply insertLike_local cfg p _ _ hs hf
+  apply insertLike_local cfg hd dfr p _ _ hs hf
   · exact hinv _
   · exact fibReqs_nhtRegister _ _ _
   · intro refs c h
@@ -1102,13 +1334,14 @@ theorem insertDest_local (cfg : Cfg) {unr : List Addr} (policy : Policy) (invali
       · have : ¬ (applyImport policy src nh0).2 = a := fun e => ha e.symm
         simp [ha, this]
 
-theorem softOne_local (cfg : Cfg) {unr : List Addr} (policy : Policy) (invalid : List Addr) (p : Pfx)
+theorem softOne_local (cfg : Cfg) (hd : vrfsDistinct cfg.vrfs = true) (dfr : Bool) {unr : List Addr}
+    (policy : Policy) (invalid : List Addr) (p : Pfx)
     {ps : List Path} (old : Path)
     (hs : Sorted ps) (hf : FlagsOK unr ps) (hinv : ∀ a, invalid.contains a = unr.contains a) :
-    LocalOK cfg unr p ps (softOne cfg policy invalid p ps old).1 (softOne cfg policy invalid p ps old).2 := by
+    LocalOK cfg dfr dfr unr p ps (softOne cfg dfr policy invalid p ps old).1 (softOne cfg dfr policy invalid p ps old).2 := by
   unfold softOne
   dsimp only
-  apply insertLike_local cfg p _ _ hs hf
+  apply insertLike_local cfg hd dfr p _ _ hs hf
   · exact hinv _
   · split
     · cases lookupNexthop ps old.src old.pid <;> simp [fibReqs]
@@ -1159,14 +1392,16 @@ theorem softOne_local (cfg : Cfg) {unr : List Addr} (policy : Policy) (invalid :
           · have : ¬ (applyImport policy old.src old.nh).2 = a := fun e => ha e.symm
             simp [ha, this]
 
-theorem softPaths_local (cfg : Cfg) {unr : List Addr} (policy : Policy) (invalid : List Addr) (p : Pfx)
+theorem softPaths_local (cfg : Cfg) (hd : vrfsDistinct cfg.vrfs = true) (dfr : Bool) {unr : List Addr}
+    (policy : Policy) (invalid : List Addr) (p : Pfx)
     (todo : List Path) {ps : List Path}
     (hs : Sorted ps) (hf : FlagsOK unr ps) (hinv : ∀ a, invalid.contains a = unr.contains a) :
-    LocalOK cfg unr p ps (softPaths cfg policy invalid p todo ps).1 (softPaths cfg policy invalid p todo ps).2 := by
+    LocalOK cfg dfr dfr unr p ps (softPaths cfg dfr policy invalid p todo ps).1
+      (softPaths cfg dfr policy invalid p todo ps).2 := by
   induction todo generalizing ps with
-  | nil => exact LocalOK.refl cfg p hs hf
+  | nil => exact LocalOK.refl cfg dfr p hs hf
   | cons o os ih =>
-    have h1 := softOne_local cfg policy invalid p o hs hf hinv
+    have h1 := softOne_local cfg hd dfr policy invalid p o hs hf hinv
     have h2 := ih h1.sorted h1.flags
     exact h1.trans h2
 
@@ -1194,12 +1429,12 @@ theorem removePaths_extract {p : Pfx} {ps : List Path} {src pid : Nat} {rest : L
       obtain ⟨rfl, _, rfl⟩ := h
       exact ⟨r, hx, rfl⟩
 
-theorem removeDest_local (cfg : Cfg) {unr : List Addr} (p : Pfx) {ps : List Path} (src pid : Nat)
-    (hs : Sorted ps) (hf : FlagsOK unr ps) :
-    LocalOK cfg unr p ps (removeDest cfg p ps src pid).1 (removeDest cfg p ps src pid).2 := by
+theorem removeDest_local (cfg : Cfg) (hd : vrfsDistinct cfg.vrfs = true) (dfr : Bool) {unr : List Addr} (p : Pfx)
+    {ps : List Path} (src pid : Nat) (hs : Sorted ps) (hf : FlagsOK unr ps) :
+    LocalOK cfg dfr dfr unr p ps (removeDest cfg dfr p ps src pid).1 (removeDest cfg dfr p ps src pid).2 := by
   unfold removeDest
   cases hr : removePaths p ps src pid with
-  | none => exact LocalOK.refl cfg p hs hf
+  | none => exact LocalOK.refl cfg dfr p hs hf
   | some x =>
     obtain ⟨rest, ch, oldNh⟩ := x
     dsimp only
@@ -1208,15 +1443,18 @@ theorem removeDest_local (cfg : Cfg) {unr : List Addr} (p : Pfx) {ps : List Path
     obtain ⟨hsame, hperm, _⟩ := extract_some hx
     have hnf : fibReqs (if isPeer src = true then [Req.unreg r.nh] else []) = [] := by
       split <;> simp [fibReqs]
-    refine ⟨hsorted, hf.subset (extract_mem hx).2, ?_, ?_, ?_⟩
+    refine ⟨hsorted, hf.subset (extract_mem hx).2, ?_, ?_, ?_, ?_⟩
     · intro fib hc
       rw [fibReqs_append, hnf, append_nil]
-      exact cells_distOpt cfg hch hc
+      exact cells_distD cfg hd dfr hch hc
     · intro q hq
       rw [fibReqs_append, hnf, append_nil] at hq
-      exact distOpt_owned cfg hch q hq
+      exact distD_owned cfg dfr hch q hq
+    · intro q hq
+      rw [fibReqs_append, hnf, append_nil] at hq
+      exact distD_good cfg dfr _ q hq
     · intro refs K hrf
-      rw [nhtReqs_append, nhtReqs_distOpt, nil_append]
+      rw [nhtReqs_append, nhtReqs_distD, nil_append]
       have hu : ∀ a, usesPaths a ps = usesPaths a rest + (if isPeer src = true ∧ r.nh = a then 1 else 0) := by
         intro a
         rw [usesPaths_perm hperm, usesPaths_cons, samePath_isPeer hsame]
@@ -1283,61 +1521,221 @@ theorem usesPaths_eq_count {a : Addr} {l : List Path} (h : ∀ x ∈ l, isPeer x
     simp only [map_cons, countAddr, filter_cons, h x (by simp), true_and]
     by_cases hx : x.nh = a <;> simp [hx]
 
-theorem dropDest_local (cfg : Cfg) {unr : List Addr} (sel : Path → Bool) (p : Pfx) {ps : List Path}
+theorem dropDest_local (cfg : Cfg) (hd : vrfsDistinct cfg.vrfs = true) (deferring : List Nat) {unr : List Addr}
+    (sel : Path → Bool) (p : Pfx) {ps : List Path}
     (hsel : ∀ x, sel x = true → isPeer x.src = true)
     (hs : Sorted ps) (hf : FlagsOK unr ps) :
-    LocalOK cfg unr p ps (dropDest cfg sel p ps).1 (dropDest cfg sel p ps).2 := by
+    LocalOK cfg (dfrOf deferring p) (dfrOf deferring p) unr p ps (dropDest cfg deferring sel p ps).1 (dropDest cfg deferring sel p ps).2 := by
   unfold dropDest
   dsimp only
+  generalize dfrOf deferring p = dfr
   obtain ⟨hsorted, hch⟩ := dropPaths_spec p sel hs
-  refine ⟨hsorted, ?_, ?_, ?_, ?_⟩
+  refine ⟨hsorted, ?_, ?_, ?_, ?_, ?_⟩
   · rw [dropPaths_fst]
     exact hf.subset (fun x hx => (mem_filter.mp hx).1)
   · intro fib hc
     rw [fibReqs_append, fibReqs_map_unreg, append_nil]
-    exact cells_distOpt cfg hch hc
+    exact cells_distD cfg hd dfr hch hc
   · intro q hq
     rw [fibReqs_append, fibReqs_map_unreg, append_nil] at hq
-    exact distOpt_owned cfg hch q hq
+    exact distD_owned cfg dfr hch q hq
+  · intro q hq
+    rw [fibReqs_append, fibReqs_map_unreg, append_nil] at hq
+    exact distD_good cfg dfr _ q hq
   · intro refs K hrf
-    rw [nhtReqs_append, nhtReqs_distOpt, nil_append, nhtReqs_map_unreg, dropPaths_nhs, dropPaths_fst]
+    rw [nhtReqs_append, nhtReqs_distD, nil_append, nhtReqs_map_unreg, dropPaths_nhs, dropPaths_fst]
     apply refReplay_unregs
     intro a
     rw [hrf a, usesPaths_split a ps sel,
       usesPaths_eq_count (l := ps.filter sel) (fun x hx => hsel x (mem_filter.mp hx).2)]
     omega
 
-theorem restalePaths_fst (p : Pfx) (ps : List Path) (k : Nat) :
-    (restalePaths p ps k).1.Perm (ps.map (fun e => if fromAddr k e then { e with stale := true } else e)) := by
+theorem restalePaths_fst (p : Pfx) (ps : List Path) (k : Nat) (mark : Path → Path) :
+    (restalePaths p ps k mark).1.Perm (ps.map (fun e => if fromAddr k e then mark e else e)) := by
   unfold restalePaths
   split
   · rename_i h
     have : ∀ x ∈ ps, fromAddr k x = false := by simpa using h
-    have hm : ps.map (fun e => if fromAddr k e then { e with stale := true } else e) = ps := by
+    have hm : ps.map (fun e => if fromAddr k e then mark e else e) = ps := by
       conv => rhs; rw [← map_id ps]
       apply map_congr_left
       intro x hx; simp [this x hx]
     rw [hm]
   · exact sortPaths_perm _
 
-theorem restaleDest_local (cfg : Cfg) {unr : List Addr} (k : Nat) (p : Pfx) {ps : List Path}
-    (hs : Sorted ps) (hf : FlagsOK unr ps) :
-    LocalOK cfg unr p ps (restaleDest cfg k p ps).1 (restaleDest cfg k p ps).2 := by
+theorem flags_of_perm_map {unr : List Addr} {ps ps' : List Path} {g : Path → Path} (hperm : ps'.Perm (ps.map g))
+    (hg : ∀ x, (g x).inv = x.inv ∧ (g x).nh = x.nh) (hf : FlagsOK unr ps) : FlagsOK unr ps' := by
+  intro x hx
+  obtain ⟨y, hy, rfl⟩ := mem_map.mp (hperm.mem_iff.mp hx)
+  rw [(hg y).1, (hg y).2]; exact hf y hy
+
+theorem uses_of_perm_map {a : Addr} {ps ps' : List Path} {g : Path → Path} (hperm : ps'.Perm (ps.map g))
+    (hg : ∀ x, (g x).src = x.src ∧ (g x).nh = x.nh) : usesPaths a ps' = usesPaths a ps := by
+  rw [usesPaths_perm hperm, usesPaths_map hg]
+
+theorem restaleDest_local (cfg : Cfg) (hd : vrfsDistinct cfg.vrfs = true) (deferring : List Nat) {unr : List Addr}
+    (k : Nat) (p : Pfx) {ps : List Path} (hs : Sorted ps) (hf : FlagsOK unr ps) :
+    LocalOK cfg (dfrOf deferring p) (dfrOf deferring p) unr p ps (restaleDest cfg deferring k p ps).1 (restaleDest cfg deferring k p ps).2 := by
   unfold restaleDest
   dsimp only
-  obtain ⟨hsorted, hch⟩ := restalePaths_spec p k hs
-  have hperm := restalePaths_fst p ps k
-  refine ⟨hsorted, ?_, fun fib hc => cells_distOpt cfg hch hc, distOpt_owned cfg hch, ?_⟩
-  · intro x hx
-    obtain ⟨y, hy, rfl⟩ := mem_map.mp (hperm.mem_iff.mp hx)
-    have := hf y hy
-    split <;> simpa using this
+  generalize dfrOf deferring p = dfr
+  obtain ⟨hsorted, hch⟩ := restalePaths_spec p k markStale (fun x => ⟨rfl, rfl⟩) hs
+  have hperm := restalePaths_fst p ps k markStale
+  refine ⟨hsorted, ?_, fun fib hc => cells_distD cfg hd dfr hch hc, distD_owned cfg dfr hch, distD_good cfg dfr _, ?_⟩
+  · exact flags_of_perm_map hperm (fun x => by split <;> simp [markStale]) hf
   · intro refs K hrf
-    rw [nhtReqs_distOpt]
+    rw [nhtReqs_distD]
     refine ⟨refs, by simp [refReplay], ?_⟩
     intro a
-    rw [hrf a, usesPaths_perm hperm, usesPaths_map]
-    intro x; split <;> simp
+    rw [hrf a, uses_of_perm_map hperm (fun x => by split <;> simp [markStale])]
+
+theorem cells_chs_keep (cfg : Cfg) (hd : vrfsDistinct cfg.vrfs = true) {p : Pfx} {E' : List Path} (chs : List Change)
+    (hc : ∀ c ∈ chs, c.pfx = p ∧ c.paths = E') :
+    ∀ fib, CellsOK cfg fib p E' → CellsOK cfg (fibReplay fib (fibReqs (chs.flatMap (distribute cfg)))) p E' := by
+  induction chs with
+  | nil => intro fib h; simpa [fibReqs, fibReplay] using h
+  | cons c t ih =>
+    intro fib h
+    rw [flatMap_cons, fibReqs_append, fibReplay_append]
+    apply ih (fun x hx => hc x (by simp [hx]))
+    obtain ⟨hp, hpa⟩ := hc c (by simp)
+    cases hs : sent c with
+    | false => rw [distribute_unsent cfg hs]; simpa [fibReqs, fibReplay] using h
+    | true => rw [← hp, ← hpa]; exact cells_distribute cfg hd hs
+
+theorem cells_chs_set (cfg : Cfg) (hd : vrfsDistinct cfg.vrfs = true) {p : Pfx} {E' : List Path} (chs : List Change)
+    (hc : ∀ c ∈ chs, c.pfx = p ∧ c.paths = E') (hex : ∃ c ∈ chs, sent c = true) :
+    ∀ fib, CellsOK cfg (fibReplay fib (fibReqs (chs.flatMap (distribute cfg)))) p E' := by
+  induction chs with
+  | nil => obtain ⟨c, hc', _⟩ := hex; simp at hc'
+  | cons c t ih =>
+    intro fib
+    rw [flatMap_cons, fibReqs_append, fibReplay_append]
+    obtain ⟨hp, hpa⟩ := hc c (by simp)
+    cases hs : sent c with
+    | true =>
+      apply cells_chs_keep cfg hd t (fun x hx => hc x (by simp [hx]))
+      rw [← hp, ← hpa]; exact cells_distribute cfg hd hs
+    | false =>
+      rw [distribute_unsent cfg hs]
+      apply ih (fun x hx => hc x (by simp [hx]))
+      obtain ⟨x, hx, hsx⟩ := hex
+      rcases mem_cons.mp hx with rfl | hx
+      · rw [hs] at hsx; simp at hsx
+      · exact ⟨x, hx, hsx⟩
+
+theorem restaleLlgrPaths_fst (p : Pfx) (ps : List Path) (k : Nat) :
+    (restaleLlgrPaths p ps k).1.Perm (ps.map (fun e => if fromAddr k e then markLlgr e else e)) := by
+  unfold restaleLlgrPaths
+  split
+  · rename_i h
+    have : ∀ x ∈ ps, fromAddr k x = false := by simpa using h
+    have hm : ps.map (fun e => if fromAddr k e then markLlgr e else e) = ps := by
+      conv => rhs; rw [← map_id ps]
+      apply map_congr_left
+      intro x hx; simp [this x hx]
+    rw [hm]
+  · exact sortPaths_perm _
+
+theorem llgrDest_local (cfg : Cfg) (hd : vrfsDistinct cfg.vrfs = true) (deferring : List Nat) {unr : List Addr}
+    (k : Nat) (hk : k < 100) (p : Pfx) {ps : List Path} (hs : Sorted ps) (hf : FlagsOK unr ps) :
+    LocalOK cfg (dfrOf deferring p) (dfrOf deferring p) unr p ps (llgrDest cfg deferring k p ps).1
+      (llgrDest cfg deferring k p ps).2 := by
+  unfold llgrDest
+  dsimp only
+  obtain ⟨hsorted, hall, hun⟩ := restaleLlgrPaths_spec p k hs
+  have hperm := restaleLlgrPaths_fst p ps k
+  have hflags : FlagsOK unr (restaleLlgrPaths p ps k).1 :=
+    flags_of_perm_map hperm (fun x => by split <;> simp [markLlgr]) hf
+  have h1 : LocalOK cfg (dfrOf deferring p) (dfrOf deferring p) unr p ps (restaleLlgrPaths p ps k).1
+      (if dfrOf deferring p then [] else (restaleLlgrPaths p ps k).2.flatMap (distribute cfg)) := by
+    refine ⟨hsorted, hflags, ?_, ?_, ?_, ?_⟩
+    · intro fib hc
+      cases hdf : dfrOf deferring p with
+      | true => simpa [visE, hdf, fibReqs, fibReplay] using hc
+      | false =>
+        simp only [visE, hdf, Bool.false_eq_true, if_false] at hc ⊢
+        by_cases hex : ∃ c ∈ (restaleLlgrPaths p ps k).2, sent c = true
+        · exact cells_chs_set cfg hd _ hall hex fib
+        · have hno : ∀ c ∈ (restaleLlgrPaths p ps k).2, sent c = false := by
+            intro c hc'
+            cases h : sent c
+            · rfl
+            · exact absurd ⟨c, hc', h⟩ hex
+          exact cells_chs_keep cfg hd _ hall fib (by rw [hun hno]; exact hc)
+    · intro r hr
+      split at hr
+      · simp [fibReqs] at hr
+      · obtain ⟨x, hx⟩ := mem_fibReqs.mp hr |> mem_flatMap.mp
+        rw [← (hall x hx.1).1]
+        exact distribute_owned cfg x r (mem_fibReqs.mpr hx.2)
+    · intro r hr
+      split at hr
+      · simp [fibReqs] at hr
+      · obtain ⟨x, hx⟩ := mem_fibReqs.mp hr |> mem_flatMap.mp
+        exact distribute_good cfg x r (mem_fibReqs.mpr hx.2)
+    · intro refs K hrf
+      have hn : nhtReqs (if dfrOf deferring p then [] else (restaleLlgrPaths p ps k).2.flatMap (distribute cfg)) = [] := by
+        split
+        · rfl
+        · apply nhtReqs_nil_of_apply
+          intro r hr
+          obtain ⟨x, _, hx⟩ := mem_flatMap.mp hr
+          obtain ⟨_, h | ⟨_, v, _, _, h⟩⟩ := distribute_all_apply cfg x r hx
+          · exact ⟨_, _, _, h⟩
+          · exact ⟨_, _, _, h⟩
+      rw [hn]
+      refine ⟨refs, by simp [refReplay], ?_⟩
+      intro a
+      rw [hrf a, uses_of_perm_map hperm (fun x => by split <;> simp [markLlgr])]
+  have h2 := dropDest_local cfg hd deferring (fun e => fromAddr k e && e.nollgr) p
+    (fun x hx => fromAddr_isPeer hk (by simp only [Bool.and_eq_true] at hx; exact hx.1)) hsorted hflags
+  exact h1.trans h2
+
+/-- end of deferral: the destinations of the released family get their requests -/
+theorem undeferDest_local (cfg : Cfg) (hd : vrfsDistinct cfg.vrfs = true) (deferring : List Nat) {unr : List Addr}
+    (f : Nat) (p : Pfx) {ps : List Path} (hs : Sorted ps) (hf : FlagsOK unr ps) :
+    LocalOK cfg (dfrOf deferring p) (dfrOf (deferring.filter (· != f)) p) unr p ps (undeferDest cfg f p ps).1
+      (undeferDest cfg f p ps).2 := by
+  unfold undeferDest
+  dsimp only
+  have hn : ∀ l : List Req, (∀ r ∈ l, ∃ t q n, r = Req.apply t q n) → ∀ (refs : Refs) (K : Addr → Nat),
+      (∀ a, refGet refs a = usesPaths a ps + K a) →
+      ∃ refs', refReplay refs (nhtReqs l) = some refs' ∧ ∀ a, refGet refs' a = usesPaths a ps + K a := by
+    intro l hl refs K h
+    rw [nhtReqs_nil_of_apply hl]
+    exact ⟨refs, by simp [refReplay], h⟩
+  by_cases hpf : p.fam = f
+  · -- the released family
+    have hd' : dfrOf (deferring.filter (· != f)) p = false := by
+      simp [dfrOf, hpf]
+    rw [hd']
+    cases he : (eligible ps).isEmpty with
+    | true =>
+      have hnil : eligible ps = [] := by simpa using he
+      simp only [hpf, beq_self_eq_true, he, Bool.not_true, Bool.and_false, Bool.false_eq_true, if_false]
+      refine ⟨hs, hf, ?_, by simp [fibReqs], by simp [fibReqs], hn [] (by simp)⟩
+      intro fib hc
+      have : visE (dfrOf deferring p) ps = [] := by unfold visE; split <;> simp [hnil]
+      rw [this] at hc
+      simpa [visE, hnil, fibReqs, fibReplay] using hc
+    | false =>
+      simp only [hpf, beq_self_eq_true, he, Bool.not_false, Bool.and_self, if_true]
+      have hsent : sent (⟨p, true, true, eligible ps⟩ : Change) = true := by simp [sent]
+      refine ⟨hs, hf, ?_, ?_, distribute_good cfg _, hn _ ?_⟩
+      · intro fib _
+        simpa [visE] using cells_distribute cfg hd (fib := fib) hsent
+      · exact distribute_owned cfg ⟨p, true, true, eligible ps⟩
+      · intro r hr
+        obtain ⟨_, h | ⟨_, v, _, _, h⟩⟩ := distribute_all_apply cfg _ r hr
+        · exact ⟨_, _, _, h⟩
+        · exact ⟨_, _, _, h⟩
+  · have hb : (p.fam == f) = false := by simpa using hpf
+    have hd' : dfrOf (deferring.filter (· != f)) p = dfrOf deferring p := by
+      simp only [dfrOf, contains_eq_mem, mem_filter, bne_iff_ne, ne_eq, hpf, not_false_eq_true, and_true]
+    rw [hd']
+    simp only [hb, Bool.false_and, Bool.false_eq_true, if_false]
+    exact LocalOK.refl cfg _ p hs hf
 
 /-- reachability reports, as the reference checker folds them -/
 theorem report_contains (unr : List Addr) (a : Addr) (r : Bool) (b : Addr) :
@@ -1353,13 +1751,15 @@ theorem report_contains (unr : List Addr) (a : Addr) (r : Bool) (b : Addr) :
     · simp only [h, if_false]
       simp [h]
 
-theorem validityDest_local (cfg : Cfg) {unr : List Addr} (a : Addr) (r : Bool) (p : Pfx) {ps : List Path}
-    (hs : Sorted ps) (hf : FlagsOK unr ps) :
-    LocalOK cfg (report unr (.nh a r)) p ps (validityDest cfg a r p ps).1 (validityDest cfg a r p ps).2 := by
+theorem validityDest_local (cfg : Cfg) (hd : vrfsDistinct cfg.vrfs = true) (deferring : List Nat) {unr : List Addr}
+    (a : Addr) (r : Bool) (p : Pfx) {ps : List Path} (hs : Sorted ps) (hf : FlagsOK unr ps) :
+    LocalOK cfg (dfrOf deferring p) (dfrOf deferring p) (report unr (.nh a r)) p ps (validityDest cfg deferring a r p ps).1
+      (validityDest cfg deferring a r p ps).2 := by
   unfold validityDest
   dsimp only
+  generalize dfrOf deferring p = dfr
   obtain ⟨hsorted, hch⟩ := validityPaths_spec p a r hs
-  refine ⟨hsorted, ?_, fun fib hc => cells_distOpt cfg hch hc, distOpt_owned cfg hch, ?_⟩
+  refine ⟨hsorted, ?_, fun fib hc => cells_distD cfg hd dfr hch hc, distD_owned cfg dfr hch, distD_good cfg dfr _, ?_⟩
   · unfold validityPaths
     dsimp only
     split
@@ -1381,7 +1781,7 @@ theorem validityDest_local (cfg : Cfg) {unr : List Addr} (a : Addr) (r : Bool) (
         simp only [this, Bool.false_eq_true, if_false, hya]
         exact hf y hy
   · intro refs K hrf
-    rw [nhtReqs_distOpt]
+    rw [nhtReqs_distD]
     refine ⟨refs, by simp [refReplay], ?_⟩
     intro b
     rw [hrf b]
@@ -1670,8 +2070,9 @@ theorem lookupDest_trav (f : Pfx → List Path → List Path × List Req) (hnil 
 theorem usesAll_cons (a : Addr) (d : Dest) (ds : List Dest) :
     usesAll a (d :: ds) = usesPaths a d.paths + usesAll a ds := by simp [usesAll]
 
-theorem trav_refs {cfg : Cfg} {unr' : List Addr} (f : Pfx → List Path → List Path × List Req) {ds : List Dest}
-    (hloc : ∀ d ∈ ds, LocalOK cfg unr' d.pfx d.paths (f d.pfx d.paths).1 (f d.pfx d.paths).2)
+theorem trav_refs {cfg : Cfg} {D D' : Pfx → Bool} {unr' : List Addr} (f : Pfx → List Path → List Path × List Req)
+    {ds : List Dest}
+    (hloc : ∀ d ∈ ds, LocalOK cfg (D d.pfx) (D' d.pfx) unr' d.pfx d.paths (f d.pfx d.paths).1 (f d.pfx d.paths).2)
     (refs : Refs) (K : Addr → Nat) (h : ∀ a, refGet refs a = usesAll a ds + K a) :
     ∃ refs', refReplay refs (nhtReqs (trav f ds).2) = some refs' ∧
       ∀ a, refGet refs' a = usesAll a (trav f ds).1 + K a := by
@@ -1693,6 +2094,19 @@ theorem trav_refs {cfg : Cfg} {unr' : List Addr} (f : Pfx → List Path → List
       rw [this]; simp [usesPaths]
     · rw [usesAll_cons]; dsimp only; omega
 
+theorem trav_good {cfg : Cfg} {D D' : Pfx → Bool} {unr' : List Addr} (f : Pfx → List Path → List Path × List Req)
+    {ds : List Dest}
+    (hloc : ∀ d ∈ ds, LocalOK cfg (D d.pfx) (D' d.pfx) unr' d.pfx d.paths (f d.pfx d.paths).1 (f d.pfx d.paths).2) :
+    ∀ r ∈ fibReqs (trav f ds).2, goodKey cfg (r.table, r.pfx) := by
+  induction ds with
+  | nil => simp [trav, fibReqs]
+  | cons d ds ih =>
+    intro r hr
+    rw [trav_cons, fibReqs_append] at hr
+    rcases mem_append.mp hr with hr | hr
+    · exact (hloc d (by simp)).good r hr
+    · exact ih (fun e he => hloc e (by simp [he])) r hr
+
 /-- requests owned by one prefix leave every cell they do not own alone -/
 theorem fibGet_frame {p : Pfx} {rs : List FibReq} (fib : Fib) (ho : ∀ r ∈ rs, owned p (r.table, r.pfx))
     {k : Key} (hk : ¬ owned p k) : fibGet (fibReplay fib rs) k.1 k.2 = fibGet fib k.1 k.2 := by
@@ -1703,16 +2117,14 @@ theorem fibGet_frame {p : Pfx} {rs : List FibReq} (fib : Fib) (ho : ∀ r ∈ rs
     have : k = (r.table, r.pfx) := by rw [e]
     rw [this]; exact ho r hr
 
-theorem fibReplay_append (fib : Fib) (a b : List FibReq) :
-    fibReplay fib (a ++ b) = fibReplay (fibReplay fib a) b := by simp [fibReplay, foldl_append]
-
-theorem trav_fib {cfg : Cfg} {unr' : List Addr} (f : Pfx → List Path → List Path × List Req) {ds : List Dest}
-    (hn : (keys ds).Nodup)
-    (hloc : ∀ d ∈ ds, LocalOK cfg unr' d.pfx d.paths (f d.pfx d.paths).1 (f d.pfx d.paths).2) (fib : Fib) :
+theorem trav_fib {cfg : Cfg} {D D' : Pfx → Bool} {unr' : List Addr} (f : Pfx → List Path → List Path × List Req)
+    {ds : List Dest} (hn : (keys ds).Nodup)
+    (hloc : ∀ d ∈ ds, LocalOK cfg (D d.pfx) (D' d.pfx) unr' d.pfx d.paths (f d.pfx d.paths).1 (f d.pfx d.paths).2)
+    (fib : Fib) :
     (∀ k : Key, (∀ d ∈ ds, ¬ owned d.pfx k) →
         fibGet (fibReplay fib (fibReqs (trav f ds).2)) k.1 k.2 = fibGet fib k.1 k.2) ∧
-    (∀ d ∈ ds, CellsOK cfg fib d.pfx (eligible d.paths) →
-        CellsOK cfg (fibReplay fib (fibReqs (trav f ds).2)) d.pfx (eligible (f d.pfx d.paths).1)) := by
+    (∀ d ∈ ds, CellsOK cfg fib d.pfx (visE (D d.pfx) d.paths) →
+        CellsOK cfg (fibReplay fib (fibReqs (trav f ds).2)) d.pfx (visE (D' d.pfx) (f d.pfx d.paths).1)) := by
   induction ds generalizing fib with
   | nil => exact ⟨fun k _ => by simp [trav, fibReqs, fibReplay], fun d hd => by simp at hd⟩
   | cons d ds ih =>
@@ -1753,9 +2165,10 @@ structure Inv (cfg : Cfg) (st : St) (fib : Fib) (refs : Refs) (unr : List Addr) 
   nodup : (keys st.dests).Nodup
   sorted : ∀ d ∈ st.dests, Sorted d.paths
   flags : ∀ d ∈ st.dests, FlagsOK unr d.paths
-  cells : ∀ p, CellsOK cfg fib p (eligible (lookupDest st.dests p))
+  cells : ∀ p, CellsOK cfg fib p (visE (dfrOf st.deferring p) (lookupDest st.dests p))
   refs : ∀ a, refGet refs a = usesAll a st.dests
   inval : ∀ a, st.invalid.contains a = unr.contains a
+  keys : ∀ e ∈ fib, goodKey cfg e.1
 
 theorem Inv.sorted_lookup {cfg st fib refs unr} (h : Inv cfg st fib refs unr) (p : Pfx) :
     Sorted (lookupDest st.dests p) := by
@@ -1772,8 +2185,8 @@ theorem Inv.flags_lookup {cfg st fib refs unr} (h : Inv cfg st fib refs unr) (p 
 /-- an operation on the single destination `p` -/
 theorem inv_setDest {cfg : Cfg} {st : St} {fib : Fib} {refs : Refs} {unr : List Addr}
     (h : Inv cfg st fib refs unr) (p : Pfx) {ps' : List Path} {reqs : List Req}
-    (hl : LocalOK cfg unr p (lookupDest st.dests p) ps' reqs) (st' : St)
-    (hd : st'.dests = setDest st.dests p ps') (hi : st'.invalid = st.invalid) :
+    (hl : LocalOK cfg (dfrOf st.deferring p) (dfrOf st.deferring p) unr p (lookupDest st.dests p) ps' reqs) (st' : St)
+    (hd : st'.dests = setDest st.dests p ps') (hi : st'.invalid = st.invalid) (hdf : st'.deferring = st.deferring) :
     ∃ refs', refReplay refs (nhtReqs reqs) = some refs' ∧
       Inv cfg st' (fibReplay fib (fibReqs reqs)) refs' unr := by
   have hu1 := fun a => usesAll_setDest a p [] h.nodup
@@ -1781,7 +2194,7 @@ theorem inv_setDest {cfg : Cfg} {st : St} {fib : Fib} {refs : Refs} {unr : List 
   obtain ⟨refs', e1, g1⟩ := hl.refs refs (fun a => usesAll a (setDest st.dests p []))
     (by intro a; rw [h.refs a]; have := hu1 a; have e0 : usesPaths a [] = 0 := rfl; rw [e0] at this; omega)
   refine ⟨refs', e1, ?_⟩
-  refine ⟨?_, ?_, ?_, ?_, ?_, ?_⟩
+  refine ⟨?_, ?_, ?_, ?_, ?_, ?_, fibReplay_keys _ _ h.keys hl.good⟩
   · rw [hd]; exact keys_setDest_nodup p ps' h.nodup
   · intro d hdm
     rw [hd] at hdm
@@ -1794,7 +2207,7 @@ theorem inv_setDest {cfg : Cfg} {st : St} {fib : Fib} {refs : Refs} {unr : List 
     · exact h.flags d hdm
     · exact hl.flags
   · intro q
-    rw [hd, lookupDest_setDest]
+    rw [hd, hdf, lookupDest_setDest]
     by_cases hq : q = p
     · subst hq; simp only [if_true]; exact hl.cells fib (h.cells q)
     · simp only [hq, if_false]
@@ -1812,18 +2225,20 @@ theorem inv_setDest {cfg : Cfg} {st : St} {fib : Fib} {refs : Refs} {unr : List 
 
 /-- an operation applied to every destination -/
 theorem inv_trav {cfg : Cfg} {st : St} {fib : Fib} {refs : Refs} {unr unr' : List Addr}
-    (h : Inv cfg st fib refs unr) (f : Pfx → List Path → List Path × List Req)
-    (hloc : ∀ q ps, Sorted ps → FlagsOK unr ps → LocalOK cfg unr' q ps (f q ps).1 (f q ps).2)
-    (hnil : ∀ q, (f q []).1 = []) (st' : St)
+    (h : Inv cfg st fib refs unr) (f : Pfx → List Path → List Path × List Req) (st' : St)
+    (hloc : ∀ q ps, Sorted ps → FlagsOK unr ps →
+      LocalOK cfg (dfrOf st.deferring q) (dfrOf st'.deferring q) unr' q ps (f q ps).1 (f q ps).2)
+    (hnil : ∀ q, (f q []).1 = [])
     (hd : st'.dests = (trav f st.dests).1) (hi : ∀ a, st'.invalid.contains a = unr'.contains a) :
     ∃ refs', refReplay refs (nhtReqs (trav f st.dests).2) = some refs' ∧
       Inv cfg st' (fibReplay fib (fibReqs (trav f st.dests).2)) refs' unr' := by
-  have hlocd : ∀ d ∈ st.dests, LocalOK cfg unr' d.pfx d.paths (f d.pfx d.paths).1 (f d.pfx d.paths).2 :=
+  have hlocd : ∀ d ∈ st.dests, LocalOK cfg (dfrOf st.deferring d.pfx) (dfrOf st'.deferring d.pfx) unr' d.pfx d.paths
+      (f d.pfx d.paths).1 (f d.pfx d.paths).2 :=
     fun d hdm => hloc d.pfx d.paths (h.sorted d hdm) (h.flags d hdm)
   obtain ⟨refs', e1, g1⟩ := trav_refs f hlocd refs (fun _ => 0) (by intro a; rw [h.refs a]; simp)
   obtain ⟨hA, hB⟩ := trav_fib f h.nodup hlocd fib
   refine ⟨refs', e1, ?_⟩
-  refine ⟨?_, ?_, ?_, ?_, ?_, hi⟩
+  refine ⟨?_, ?_, ?_, ?_, ?_, hi, fibReplay_keys _ _ h.keys (trav_good f hlocd)⟩
   · rw [hd]; exact h.nodup.sublist (keys_trav_sublist f st.dests)
   · intro d hdm
     rw [hd] at hdm
@@ -1844,6 +2259,8 @@ theorem inv_trav {cfg : Cfg} {st : St} {fib : Fib} {refs : Refs} {unr unr' : Lis
       rw [lookupDest_of_not_mem hq] at hc ⊢
       have hn0 : (f q []).1 = [] := hnil q
       rw [hn0]
+      have hv : ∀ b : Bool, visE b ([] : List Path) = [] := by intro b; cases b <;> rfl
+      rw [hv] at hc ⊢
       apply hc.transfer
       intro k hk
       apply hA k
@@ -1852,12 +2269,6 @@ theorem inv_trav {cfg : Cfg} {st : St} {fib : Fib} {refs : Refs} {unr unr' : Lis
       rw [owned_inj hk hown]; exact mem_map.mpr ⟨d, hdm, rfl⟩
   · intro a; rw [g1 a, hd]; simp
 
-
-theorem fromAddr_isPeer {k : Nat} (hk : k < 100) {x : Path} (h : fromAddr k x = true) : isPeer x.src = true := by
-  unfold fromAddr addrKey at h
-  cases hp : isPeer x.src
-  · simp [hp, srcLocal] at h; omega
-  · rfl
 
 theorem invalid_update_contains (inv unr : List Addr) (a : Addr) (r : Bool) (h : ∀ b, inv.contains b = unr.contains b) (b : Addr) :
     (if r then inv.filter (· != a) else if inv.contains a then inv else a :: inv).contains b =
@@ -1881,73 +2292,134 @@ theorem invalid_update_contains (inv unr : List Addr) (a : Addr) (r : Bool) (h :
       simp only [contains_eq_mem, decide_eq_decide] at this
       simp [hb, this]
 
-theorem wf_peer_lt {cfg : Cfg} (hc : cfg.wf = true) {k : Nat} (hk : k < cfg.rids.length) : k < 100 := by
+theorem wf_peer_lt {cfg : Cfg} (hc : cfg.wf = true) {k : Nat} (hk : k < cfg.peers.length) : k < 100 := by
   simp only [Cfg.wf, Bool.and_eq_true, decide_eq_true_eq] at hc
   omega
+
+theorem wf_distinct {cfg : Cfg} (hc : cfg.wf = true) : vrfsDistinct cfg.vrfs = true := by
+  simp only [Cfg.wf, Bool.and_eq_true] at hc
+  exact hc.1.2
+
+/-- history as the reference checker folds it: the families still in deferral -/
+theorem undeferred_eq (dfr : List Nat) (op : Op) :
+    undeferred dfr op = match op with | .undefer f => dfr.filter (· != f) | _ => dfr := by
+  cases op <;> rfl
 
 /-- Every history step keeps the invariant; the tracking requests never unregister an address
     without outstanding registration. -/
 theorem step_inv {cfg : Cfg} {st : St} {fib : Fib} {refs : Refs} {unr : List Addr}
     (hc : cfg.wf = true) (op : Op) (hop : op.wf cfg = true) (h : Inv cfg st fib refs unr) :
     ∃ refs', refReplay refs (nhtReqs (step cfg st op).2) = some refs' ∧
-      Inv cfg (step cfg st op).1 (fibReplay fib (fibReqs (step cfg st op).2)) refs' (report unr op) := by
+      Inv cfg (step cfg st op).1 (fibReplay fib (fibReqs (step cfg st op).2)) refs' (report unr op) ∧
+      (step cfg st op).1.deferring = undeferred st.deferring op := by
+  have hd := wf_distinct hc
+  have wrap : ∀ {st' : St} {reqs : List Req} {unr' : List Addr},
+      (∃ refs', refReplay refs (nhtReqs reqs) = some refs' ∧ Inv cfg st' (fibReplay fib (fibReqs reqs)) refs' unr') →
+      st'.deferring = undeferred st.deferring op →
+      ∃ refs', refReplay refs (nhtReqs reqs) = some refs' ∧ Inv cfg st' (fibReplay fib (fibReqs reqs)) refs' unr' ∧
+        st'.deferring = undeferred st.deferring op := by
+    intro st' reqs unr' ⟨r, e, i⟩ hdf
+    exact ⟨r, e, i, hdf⟩
   cases op with
-  | ins src p pid nh lp cl rts =>
-    exact inv_setDest h p (insertDest_local cfg st.policy st.invalid p src (sidOf st src) pid nh lp cl rts st.next
-      (h.sorted_lookup p) (h.flags_lookup p) h.inval) _ rfl rfl
+  | ins src p pid nh att =>
+    exact wrap (inv_setDest h p (insertDest_local cfg hd _ st.policy st.invalid p src (sidOf st src) pid nh att st.next
+      (h.sorted_lookup p) (h.flags_lookup p) h.inval) _ rfl rfl rfl) rfl
   | rm src p pid =>
-    exact inv_setDest h p (removeDest_local cfg p src pid (h.sorted_lookup p) (h.flags_lookup p)) _ rfl rfl
+    exact wrap (inv_setDest h p (removeDest_local cfg hd _ p src pid (h.sorted_lookup p) (h.flags_lookup p)) _ rfl rfl rfl) rfl
   | down k =>
     have hk : k < 100 := wf_peer_lt hc (by simpa [Op.wf] using hop)
-    exact inv_trav h (dropDest cfg (fromAddr k))
-      (fun q ps hs hf => dropDest_local cfg _ q (fun x hx => fromAddr_isPeer hk hx) hs hf)
-      (fun q => by simp [dropDest, dropPaths]) _ rfl h.inval
+    exact wrap (inv_trav h (dropDest cfg st.deferring (fromAddr k)) _
+      (fun q ps hs hf => dropDest_local cfg hd st.deferring _ q (fun x hx => fromAddr_isPeer hk hx) hs hf)
+      (fun q => by simp [dropDest, dropPaths]) rfl h.inval) rfl
+  | drop k =>
+    have hk : k < 100 := wf_peer_lt hc (by simpa [Op.wf] using hop)
+    exact wrap (inv_trav h (dropDest cfg st.deferring (fromAddr k)) _
+      (fun q ps hs hf => dropDest_local cfg hd st.deferring _ q (fun x hx => fromAddr_isPeer hk hx) hs hf)
+      (fun q => by simp [dropDest, dropPaths]) rfl h.inval) rfl
   | stale k =>
-    exact inv_trav h (restaleDest cfg k)
-      (fun q ps hs hf => restaleDest_local cfg k q hs hf)
-      (fun q => by simp [restaleDest, restalePaths]) _ rfl h.inval
+    exact wrap (inv_trav h (restaleDest cfg st.deferring k) _
+      (fun q ps hs hf => restaleDest_local cfg hd st.deferring k q hs hf)
+      (fun q => by simp [restaleDest, restalePaths]) rfl h.inval) rfl
   | purge k =>
     have hk : k < 100 := wf_peer_lt hc (by simpa [Op.wf] using hop)
-    exact inv_trav h (dropDest cfg (fun e => fromAddr k e && e.stale))
-      (fun q ps hs hf => dropDest_local cfg _ q
+    exact wrap (inv_trav h (dropDest cfg st.deferring (fun e => fromAddr k e && e.stale)) _
+      (fun q ps hs hf => dropDest_local cfg hd st.deferring _ q
         (fun x hx => fromAddr_isPeer hk (by simp only [Bool.and_eq_true] at hx; exact hx.1)) hs hf)
-      (fun q => by simp [dropDest, dropPaths]) _ rfl h.inval
+      (fun q => by simp [dropDest, dropPaths]) rfl h.inval) rfl
+  | llgr k =>
+    have hk : k < 100 := wf_peer_lt hc (by simpa [Op.wf] using hop)
+    exact wrap (inv_trav h (llgrDest cfg st.deferring k) _
+      (fun q ps hs hf => llgrDest_local cfg hd st.deferring k hk q hs hf)
+      (fun q => by simp [llgrDest, restaleLlgrPaths, dropDest, dropPaths]) rfl h.inval) rfl
+  | lpurge k =>
+    have hk : k < 100 := wf_peer_lt hc (by simpa [Op.wf] using hop)
+    exact wrap (inv_trav h (dropDest cfg st.deferring (fun e => fromAddr k e && e.llgr)) _
+      (fun q ps hs hf => dropDest_local cfg hd st.deferring _ q
+        (fun x hx => fromAddr_isPeer hk (by simp only [Bool.and_eq_true] at hx; exact hx.1)) hs hf)
+      (fun q => by simp [dropDest, dropPaths]) rfl h.inval) rfl
   | soft k =>
-    exact inv_trav h (softDest cfg st.policy st.invalid k)
-      (fun q ps hs hf => softPaths_local cfg st.policy st.invalid q _ hs hf h.inval)
-      (fun q => by simp [softDest, softPaths]) _ rfl h.inval
+    exact wrap (inv_trav h (softDest cfg st.deferring st.policy st.invalid k) _
+      (fun q ps hs hf => softPaths_local cfg hd _ st.policy st.invalid q _ hs hf h.inval)
+      (fun q => by simp [softDest, softPaths]) rfl h.inval) rfl
   | pol rules =>
-    refine ⟨refs, by simp [step, nhtReqs, refReplay], ?_⟩
+    refine ⟨refs, by simp [step, nhtReqs, refReplay], ?_, rfl⟩
     simpa [step, fibReqs, fibReplay, report] using
-      (⟨h.nodup, h.sorted, h.flags, h.cells, h.refs, h.inval⟩ : Inv cfg { st with policy := rules } fib refs unr)
+      (⟨h.nodup, h.sorted, h.flags, h.cells, h.refs, h.inval, h.keys⟩ : Inv cfg { st with policy := rules } fib refs unr)
   | nh a r =>
-    exact inv_trav h (validityDest cfg a r)
-      (fun q ps hs hf => validityDest_local cfg a r q hs hf)
-      (fun q => by simp [validityDest, validityPaths]) _ rfl
-      (fun b => invalid_update_contains st.invalid unr a r h.inval b)
+    exact wrap (inv_trav h (validityDest cfg st.deferring a r) _
+      (fun q ps hs hf => validityDest_local cfg hd st.deferring a r q hs hf)
+      (fun q => by simp [validityDest, validityPaths]) rfl
+      (fun b => invalid_update_contains st.invalid unr a r h.inval b)) rfl
+  | undefer f =>
+    exact wrap (inv_trav h (undeferDest cfg f) _
+      (fun q ps hs hf => undeferDest_local cfg hd st.deferring f q hs hf)
+      (fun q => by simp [undeferDest]) rfl h.inval) rfl
 
 theorem inv_init (cfg : Cfg) : Inv cfg (St.init cfg) [] [] [] := by
-  refine ⟨by simp [St.init, keys], by simp [St.init], by simp [St.init], ?_, by simp [St.init, refGet, usesAll], by simp [St.init]⟩
+  refine ⟨by simp [St.init, keys], by simp [St.init], by simp [St.init], ?_, by simp [St.init, refGet, usesAll], by simp [St.init], by simp⟩
   intro p
-  simp only [St.init, lookupDest, find?_nil, eligible, filter_nil]
-  exact ⟨rfl, fun _ _ _ _ _ => rfl, fun _ b t e => by simp at e⟩
-
+  have : visE (dfrOf (St.init cfg).deferring p) (lookupDest (St.init cfg).dests p) = [] := by
+    simp only [St.init, lookupDest, find?_nil, visE, eligible, filter_nil]; exact ite_self _
+  rw [this]
+  exact ⟨rfl, fun _ _ _ _ => rfl⟩
 
 -- ---------------------------------------------------------------- model order vs. the property's order
 
 theorem beats_iff (q p : PathObs) : beats q p = true ↔
-    (p.lp < q.lp ∨ (p.lp = q.lp ∧ (b2n p.eb < b2n q.eb ∨ (b2n p.eb = b2n q.eb ∧
-      (b2n q.stale < b2n p.stale ∨ (b2n q.stale = b2n p.stale ∧ q.cl < p.cl)))))) := by
+    (b2n q.llgr < b2n p.llgr ∨ (b2n q.llgr = b2n p.llgr ∧
+    (p.lp < q.lp ∨ (p.lp = q.lp ∧
+    (q.asl < p.asl ∨ (q.asl = p.asl ∧
+    (q.org < p.org ∨ (q.org = p.org ∧
+    (b2n p.eb < b2n q.eb ∨ (b2n p.eb = b2n q.eb ∧
+      (b2n q.stale < b2n p.stale ∨ (b2n q.stale = b2n p.stale ∧ q.cl < p.cl)))))))))))) := by
   unfold beats
-  by_cases h1 : q.lp = p.lp
-  · cases h2 : q.eb <;> cases h3 : p.eb <;> cases h4 : q.stale <;> cases h5 : p.stale <;>
-      simp [h1, b2n]
-  · have : (q.lp != p.lp) = true := by simpa using h1
-    simp only [this, if_true, decide_eq_true_eq]
-    omega
+  by_cases h0 : q.llgr = p.llgr
+  · have e0 : (q.llgr != p.llgr) = false := by simp [h0]
+    simp only [e0, Bool.false_eq_true, if_false, h0, true_and, Nat.lt_irrefl, false_or]
+    by_cases h1 : q.lp = p.lp
+    · have e1 : (q.lp != p.lp) = false := by simp [h1]
+      simp only [e1, Bool.false_eq_true, if_false, h1, true_and, Nat.lt_irrefl, false_or]
+      by_cases h2 : q.asl = p.asl
+      · have e2 : (q.asl != p.asl) = false := by simp [h2]
+        simp only [e2, Bool.false_eq_true, if_false, h2, true_and, Nat.lt_irrefl, false_or]
+        by_cases h3 : q.org = p.org
+        · have e3 : (q.org != p.org) = false := by simp [h3]
+          simp only [e3, Bool.false_eq_true, if_false, h3, true_and, Nat.lt_irrefl, false_or]
+          cases h4 : q.eb <;> cases h5 : p.eb <;> cases h6 : q.stale <;> cases h7 : p.stale <;> simp [b2n]
+        · have e3 : (q.org != p.org) = true := by simpa using h3
+          simp [h3]
+      · have e2 : (q.asl != p.asl) = true := by simpa using h2
+        simp [h2]
+    · have e1 : (q.lp != p.lp) = true := by simpa using h1
+      have h1' : ¬ p.lp = q.lp := fun e => h1 e.symm
+      simp [h1, h1']
+  · have e0 : (q.llgr != p.llgr) = true := by simpa using h0
+    simp only [e0, if_true]
+    cases hq : q.llgr <;> cases hp : p.llgr <;> simp_all [b2n]
 
 theorem ecmpKey_eq_iff (x y : Path) : ecmpKey x = ecmpKey y ↔
-    (x.lp = y.lp ∧ b2n x.eb = b2n y.eb ∧ b2n x.stale = b2n y.stale ∧ x.cl = y.cl) := by
+    (b2n x.isLl = b2n y.isLl ∧ x.lp = y.lp ∧ x.asl = y.asl ∧ x.org = y.org ∧ b2n x.eb = b2n y.eb ∧
+      b2n x.stale = b2n y.stale ∧ x.cl = y.cl) := by
   simp only [ecmpKey, Prod.mk.injEq, b2n_inj]
 
 theorem not_beats_of_ge {x y : Path} (h : cmpGe y x = true) : beats (pathObs y) (pathObs x) = false := by
@@ -1966,16 +2438,19 @@ theorem key_eq_of_ge_not_beats {x y : Path} (h : cmpGe y x = true)
   rw [ecmpKey_eq_iff]
   simp only [pathObs] at hb'
   have := b2n_le x.eb; have := b2n_le y.eb; have := b2n_le x.stale; have := b2n_le y.stale
+  have := b2n_le x.isLl; have := b2n_le y.isLl
   omega
 
-theorem beats_congr (q p p' : PathObs) (h1 : p.lp = p'.lp) (h2 : p.eb = p'.eb) (h3 : p.stale = p'.stale)
+theorem beats_congr (q p p' : PathObs) (h0 : p.llgr = p'.llgr) (h1 : p.lp = p'.lp) (ha : p.asl = p'.asl)
+    (ho : p.org = p'.org) (h2 : p.eb = p'.eb) (h3 : p.stale = p'.stale)
     (h4 : p.cl = p'.cl) : beats q p = beats q p' := by
-  unfold beats; rw [h1, h2, h3, h4]
+  unfold beats; rw [h0, h1, ha, ho, h2, h3, h4]
 
 theorem beats_congr_key {p b : Path} (h : ecmpKey p = ecmpKey b) (q : PathObs) :
     beats q (pathObs p) = beats q (pathObs b) := by
   rw [ecmpKey_eq_iff] at h
-  exact beats_congr q _ _ h.1 (b2n_inj.mp h.2.1) (b2n_inj.mp h.2.2.1) h.2.2.2
+  exact beats_congr q _ _ (b2n_inj.mp h.1) h.2.1 h.2.2.1 h.2.2.2.1 (b2n_inj.mp h.2.2.2.2.1)
+    (b2n_inj.mp h.2.2.2.2.2.1) h.2.2.2.2.2.2
 
 theorem key_sandwich {b x y : Path} (h1 : cmpGe x b = true) (h2 : cmpGe y x = true)
     (h : ecmpKey y = ecmpKey b) : ecmpKey x = ecmpKey b := by
@@ -2151,48 +2626,91 @@ theorem want_reachable {unr : List Addr} {ps : List Path} (hf : FlagsOK unr ps) 
   rw [hf x hxp] at this
   rw [this] at hu; simp at hu
 
+theorem vis_sorted {l : List Path} (hs : Sorted l) (b : Bool) : Sorted (visE b l) := by
+  unfold visE; split
+  · simp [Sorted]
+  · exact hs.eligible
+
 theorem checkMainPfx_ok {cfg st fib refs unr} (h : Inv cfg st fib refs unr) (p : Pfx) :
-    checkMainPfx unr fib (st.dests.map destObs) p = none := by
+    checkMainPfx st.deferring unr fib (st.dests.map destObs) p = none := by
   unfold checkMainPfx
   split
   · rfl
-  · dsimp only
-    rw [ribGet_map, want_spec (h.sorted_lookup p) (h.flags_lookup p), (h.cells p).main,
+  · rename_i hcond
+    have hnd : dfrOf st.deferring p = false := by
+      simp only [Bool.or_eq_true, not_or, Bool.not_eq_true] at hcond
+      exact hcond.2
+    dsimp only
+    have hc := (h.cells p).main
+    simp only [visE, hnd, Bool.false_eq_true, if_false] at hc
+    rw [ribGet_map, want_spec (h.sorted_lookup p) (h.flags_lookup p), hc,
       want_reachable (h.flags_lookup p), sameSet_refl]
     simp
 
+theorem vrfWant_reachable {unr : List Addr} {ps : List Path} (hf : FlagsOK unr ps) (v : Vrf) :
+    (vrfWant v (eligible ps)).any (fun a => unr.contains a) = false := by
+  cases he : eligible ps with
+  | nil => rfl
+  | cons b t =>
+    simp only [vrfWant]
+    split
+    · rw [← he]; exact want_reachable hf
+    · rfl
+
 theorem checkVrfPfx_ok {cfg st fib refs unr} (h : Inv cfg st fib refs unr) (v : Vrf) (hv : v ∈ cfg.vrfs) (p : Pfx) :
-    checkVrfPfx unr fib (st.dests.map destObs) v p = none := by
+    checkVrfPfx st.deferring unr fib (st.dests.map destObs) v p = none := by
   unfold checkVrfPfx
   split
   · rfl
   · rename_i hcond
-    have hcond' : p.isVpn = true ∧ v.tid ≠ 0 := by
-      simp only [Bool.or_eq_true, Bool.not_eq_true', beq_iff_eq, not_or] at hcond
-      exact ⟨by simpa using hcond.1, hcond.2⟩
+    have hcond' : p.isVpn = true ∧ v.tid ≠ 0 ∧ dfrOf st.deferring p = false := by
+      simp only [Bool.or_eq_true, Bool.not_eq_true', beq_iff_eq, not_or, Bool.not_eq_true] at hcond
+      exact ⟨by simpa using hcond.1.1, hcond.1.2, hcond.2⟩
     dsimp only
-    rw [ribGet_map, spec_eligible_map (h.flags_lookup p)]
+    have hcell := (h.cells p).vrf hcond'.1 v hv hcond'.2.1
+    simp only [visE, hcond'.2.2, Bool.false_eq_true, if_false] at hcell
+    rw [ribGet_map, spec_eligible_map (h.flags_lookup p), hcell, vrfWant_reachable (h.flags_lookup p)]
+    simp only [Bool.false_eq_true, if_false]
     have hs := (h.sorted_lookup p).eligible
+    have hw := want_spec (h.sorted_lookup p) (h.flags_lookup p)
+    rw [spec_eligible_map (h.flags_lookup p)] at hw
     cases he : eligible (lookupDest st.dests p) with
-    | nil =>
-      have := (h.cells p).vrfNil hcond'.1 he v hv hcond'.2
-      simp [this]
+    | nil => simp [vrfWant]
     | cons b t =>
-      rw [he] at hs
-      simp only [map_cons, isEmpty_cons, Bool.false_eq_true, if_false]
-      split
-      · rename_i hall
-        have hb : rtMatch v (pathObs b) = true := by
-          have := all_eq_true.mp hall (pathObs b) (by simpa using head_mem_bests hs)
-          exact this
-        have himp : canImport v b.rts = true := by simpa [rtMatch, canImport, pathObs] using hb
-        have hcell := (h.cells p).vrfImp hcond'.1 b t he v hv hcond'.2 himp
-        have hw := want_spec (h.sorted_lookup p) (h.flags_lookup p)
-        rw [spec_eligible_map (h.flags_lookup p), he] at hw
-        simp only [map_cons] at hw
-        rw [hw, hcell, ← he, want_reachable (h.flags_lookup p), sameSet_refl]
-        simp
-      · rfl
+      rw [he] at hs hw
+      have hbm := head_mem_bests hs
+      have hrm : rtMatch v (pathObs b) = canImport v b.rts := by simp [rtMatch, canImport, pathObs]
+      simp only [map_cons, isEmpty_cons, Bool.false_eq_true, if_false] at hw ⊢
+      rw [hw]
+      cases hi : canImport v b.rts with
+      | true =>
+        simp only [vrfWant, hi, if_true, sameSet_refl, Bool.true_or]
+        split
+        · rfl
+        · split
+          · rename_i hany
+            exfalso
+            have : (bests (pathObs b :: map pathObs t)).any (rtMatch v) = true :=
+              any_eq_true.mpr ⟨pathObs b, by simpa using hbm, by rw [hrm, hi]⟩
+            simp [this] at hany
+          · rfl
+      | false =>
+        simp only [vrfWant, hi, Bool.false_eq_true, if_false, isEmpty_nil, Bool.or_true]
+        split
+        · rename_i hall
+          exfalso
+          have := all_eq_true.mp hall (pathObs b) (by simpa using hbm)
+          rw [hrm, hi] at this; simp at this
+        · split <;> rfl
+
+theorem checkCell_ok {cfg st fib refs unr} (h : Inv cfg st fib refs unr) (e : (Nat × Pfx) × List Addr)
+    (he : e ∈ fib) : checkCell cfg e = none := by
+  unfold checkCell
+  rcases h.keys e he with h0 | ⟨h1, h2⟩
+  · simp [h0]
+  · split
+    · rfl
+    · simp [h1, h2]
 
 theorem checkRef_ok {cfg st fib refs unr} (h : Inv cfg st fib refs unr) (a : Addr) :
     checkRef refs (st.dests.map destObs) a = none := by
@@ -2200,8 +2718,10 @@ theorem checkRef_ok {cfg st fib refs unr} (h : Inv cfg st fib refs unr) (a : Add
   rw [uses_map, h.refs a]; simp
 
 theorem checkStep_ok {cfg st fib refs unr} (h : Inv cfg st fib refs unr) :
-    checkStep cfg unr fib refs (st.dests.map destObs) = none := by
+    checkStep cfg st.deferring unr fib refs (st.dests.map destObs) = none := by
   unfold checkStep
+  dsimp only
+  rw [firstSome_none (fun e he => checkCell_ok h e he)]
   dsimp only
   rw [firstSome_none (fun p _ => checkMainPfx_ok h p)]
   dsimp only
@@ -2212,16 +2732,19 @@ theorem checkStep_ok {cfg st fib refs unr} (h : Inv cfg st fib refs unr) :
 theorem checkFrom_run {cfg : Cfg} (hc : cfg.wf = true) (ops : List Op) :
     ∀ (st : St) (fib : Fib) (refs : Refs) (unr : List Addr) (i : Nat),
       ops.all (Op.wf cfg) = true → Inv cfg st fib refs unr →
-      checkFrom cfg i fib refs unr ops (obsOfRun (runFrom cfg st ops)) = .ok := by
+      checkFrom cfg i st.deferring fib refs unr ops (obsOfRun (runFrom cfg st ops)) = .ok := by
   induction ops with
   | nil => intro st fib refs unr i _ _; simp [runFrom, obsOfRun, checkFrom]
   | cons op ops ih =>
     intro st fib refs unr i hwf h
     simp only [all_cons, Bool.and_eq_true] at hwf
-    obtain ⟨refs', e1, hinv⟩ := step_inv hc op hwf.1 h
-    simp only [runFrom, obsOfRun, map_cons, obsOfStep, checkFrom, e1, checkStep_ok hinv]
-    exact ih _ _ _ _ _ hwf.2 hinv
-
+    obtain ⟨refs', e1, hinv, hdf⟩ := step_inv hc op hwf.1 h
+    have hcs := checkStep_ok hinv
+    rw [hdf] at hcs
+    simp only [runFrom, obsOfRun, map_cons, obsOfStep, checkFrom, e1, hcs]
+    have := ih _ _ _ _ (i + 1) hwf.2 hinv
+    rw [hdf] at this
+    exact this
 
 -- ---------------------------------------------------------------- histories
 
@@ -2250,7 +2773,7 @@ theorem inv_after {cfg : Cfg} (hc : cfg.wf = true) (ops : List Op) :
   | cons op ops ih =>
     intro st fib refs unr hwf h
     simp only [all_cons, Bool.and_eq_true] at hwf
-    obtain ⟨refs1, e1, h1⟩ := step_inv hc op hwf.1 h
+    obtain ⟨refs1, e1, h1, _⟩ := step_inv hc op hwf.1 h
     obtain ⟨refs2, e2, h2⟩ := ih _ _ _ _ hwf.2 h1
     refine ⟨refs2, ?_, ?_⟩
     · simp only [allReqs, nhtReqs_append, refReplay_append, e1]; exact e2
@@ -2534,33 +3057,33 @@ theorem fibGet_sortBy (fib : Fib) (rs : List FibReq) (t : Nat) (q : Pfx) :
 
 -- tracking requests
 
-theorem countAddr_perm {a : Addr} {l l' : List Addr} (h : l.Perm l') : countAddr a l = countAddr a l' :=
-  (h.filter _).length_eq
+-- tracking requests: a stable sort by address keeps, for every address, the order sent
 
-theorem refReplay_regs {refs : Refs} (l : List Addr) :
-    ∃ refs', refReplay refs (l.map (fun a => (true, a))) = some refs' ∧
-      ∀ a, refGet refs' a = refGet refs a + countAddr a l := by
-  induction l generalizing refs with
-  | nil => exact ⟨refs, by simp [refReplay], by simp [countAddr]⟩
-  | cons x l ih =>
-    obtain ⟨refs', e, g⟩ := @ih (refSet refs x (refGet refs x + 1))
-    refine ⟨refs', by simpa [refReplay] using e, ?_⟩
-    intro a
-    rw [g a, refGet_refSet]
-    by_cases ha : a = x
-    · subst ha; simp [countAddr]; omega
-    · have : ¬ x = a := fun e => ha e.symm
-      simp [ha, countAddr, this]
+/-- the requests (register = `true`) for address `a`, in order -/
+def proj (a : Addr) (log : List (Bool × Addr)) : List Bool := (log.filter (fun r => r.2 == a)).map (·.1)
 
-/-- counting form of a successful replay -/
-theorem refReplay_count {log : List (Bool × Addr)} :
+/-- replay of the requests for one address on its count -/
+def run1 : Nat → List Bool → Option Nat
+  | n, [] => some n
+  | n, true :: t => run1 (n + 1) t
+  | n, false :: t => if n = 0 then none else run1 (n - 1) t
+
+theorem proj_cons (a : Addr) (k : Bool) (b : Addr) (rest : List (Bool × Addr)) :
+    proj a ((k, b) :: rest) = if b = a then k :: proj a rest else proj a rest := by
+  unfold proj
+  by_cases h : b = a
+  · simp [filter_cons, h]
+  · simp [filter_cons, h]
+
+theorem refReplay_run1 {log : List (Bool × Addr)} :
     ∀ {refs refs' : Refs}, refReplay refs log = some refs' →
-      ∀ a, refGet refs' a + countAddr a (unregsOf log) = refGet refs a + countAddr a (regsOf log) := by
+      ∀ a, run1 (refGet refs a) (proj a log) = some (refGet refs' a) := by
   induction log with
-  | nil => intro refs refs' h a; simp [refReplay] at h; simp [h, unregsOf, regsOf]
+  | nil => intro refs refs' h a; simp [refReplay] at h; simp [proj, run1, h]
   | cons x log ih =>
     intro refs refs' h a
     obtain ⟨k, b⟩ := x
+    rw [proj_cons]
     cases k
     · simp only [refReplay] at h
       split at h
@@ -2568,31 +3091,84 @@ theorem refReplay_count {log : List (Bool × Addr)} :
       · rename_i hne
         have := ih h a
         rw [refGet_refSet] at this
-        simp only [unregsOf, regsOf]
         by_cases hab : a = b
-        · subst hab; simp [countAddr] at this ⊢; omega
+        · subst hab; simp only [if_true] at this ⊢; simp only [run1, hne, if_false]; exact this
         · have hba : ¬ b = a := fun e => hab e.symm
-          simp [hab, countAddr, hba] at this ⊢; omega
+          simp only [hab, hba, if_false] at this ⊢; exact this
     · simp only [refReplay] at h
       have := ih h a
       rw [refGet_refSet] at this
-      simp only [unregsOf, regsOf]
       by_cases hab : a = b
-      · subst hab; simp [countAddr] at this ⊢; omega
+      · subst hab; simp only [if_true] at this ⊢; simp only [run1]; exact this
       · have hba : ¬ b = a := fun e => hab e.symm
-        simp [hab, countAddr, hba] at this ⊢; omega
+        simp only [hab, hba, if_false] at this ⊢; exact this
+
+theorem refReplay_of_run1 {log : List (Bool × Addr)} :
+    ∀ {refs : Refs}, (∀ a, (run1 (refGet refs a) (proj a log)).isSome = true) →
+      ∃ refs', refReplay refs log = some refs' := by
+  induction log with
+  | nil => intro refs _; exact ⟨refs, rfl⟩
+  | cons x log ih =>
+    intro refs h
+    obtain ⟨k, b⟩ := x
+    cases k
+    · have hb := h b
+      rw [proj_cons] at hb
+      simp only [if_true, run1] at hb
+      have hne : refGet refs b ≠ 0 := by
+        intro e; simp [e] at hb
+      simp only [refReplay, hne, if_false]
+      apply ih
+      intro a
+      have ha := h a
+      rw [proj_cons] at ha
+      rw [refGet_refSet]
+      by_cases hab : a = b
+      · subst hab; simp only [if_true, run1, hne, if_false] at ha ⊢; exact ha
+      · have hba : ¬ b = a := fun e => hab e.symm
+        simp only [hab, hba, if_false] at ha ⊢; exact ha
+    · simp only [refReplay]
+      apply ih
+      intro a
+      have ha := h a
+      rw [proj_cons] at ha
+      rw [refGet_refSet]
+      by_cases hab : a = b
+      · subst hab; simp only [if_true, run1] at ha ⊢; exact ha
+      · have hba : ¬ b = a := fun e => hab e.symm
+        simp only [hab, hba, if_false] at ha ⊢; exact ha
+
+theorem proj_canon (a : Addr) (log : List (Bool × Addr)) : proj a (canonNht log) = proj a log := by
+  unfold proj canonNht
+  have htot : ∀ x y : Bool × Addr, nhtLe x y = false → nhtLe y x = true := by
+    intro x y h
+    have h' : ¬ x.2 ≤ y.2 := by simpa [nhtLe] using h
+    have : y.2 ≤ x.2 := Nat.le_of_lt (Nat.lt_of_not_le h')
+    simpa [nhtLe] using this
+  have htr : ∀ x y z : Bool × Addr, nhtLe x y = true → nhtLe y z = true → nhtLe x z = true := by
+    intro x y z h1 h2
+    have h1' : x.2 ≤ y.2 := by simpa [nhtLe] using h1
+    have h2' : y.2 ≤ z.2 := by simpa [nhtLe] using h2
+    have : x.2 ≤ z.2 := Nat.le_trans h1' h2'
+    simpa [nhtLe] using this
+  rw [filter_sortBy nhtLe htot htr]
+  congr 1
+  apply sortBy_of_all_le
+  intro x hx y hy
+  have hx' : x.2 = a := by simpa using (mem_filter.mp hx).2
+  have hy' : y.2 = a := by simpa using (mem_filter.mp hy).2
+  simp [nhtLe, hx', hy']
 
 /-- a log that replays in the order issued also replays in canonical order, to the same counts -/
 theorem refReplay_canon {log : List (Bool × Addr)} {refs refs' : Refs} (h : refReplay refs log = some refs') :
     ∃ refs'', refReplay refs (canonNht log) = some refs'' ∧ ∀ a, refGet refs'' a = refGet refs' a := by
-  unfold canonNht
-  obtain ⟨r1, e1, g1⟩ := @refReplay_regs refs (sortBy natLe (regsOf log))
-  have hc := refReplay_count h
-  obtain ⟨r2, e2, g2⟩ := @refReplay_unregs r1 (fun a => refGet refs' a) (sortBy natLe (unregsOf log)) (by
-    intro a
-    rw [g1 a, countAddr_perm (sortBy_perm natLe _), countAddr_perm (sortBy_perm natLe (unregsOf log))]
-    have := hc a; omega)
-  exact ⟨r2, by rw [refReplay_append, e1]; exact e2, g2⟩
+  have h1 := refReplay_run1 h
+  obtain ⟨refs'', e⟩ := @refReplay_of_run1 (canonNht log) refs (by intro a; rw [proj_canon, h1 a]; rfl)
+  refine ⟨refs'', e, ?_⟩
+  intro a
+  have h2 := refReplay_run1 e a
+  rw [proj_canon, h1 a] at h2
+  exact (Option.some.inj h2).symm
 
 -- destinations
 
@@ -2613,19 +3189,22 @@ theorem usesAll_perm {a : Addr} {ds ds' : List Dest} (hp : ds'.Perm ds) : usesAl
   | trans _ _ ih1 ih2 => rw [ih1, ih2]
 
 theorem Inv.perm {cfg st fib refs unr} (h : Inv cfg st fib refs unr) (st' : St)
-    (hp : st'.dests.Perm st.dests) (hi : st'.invalid = st.invalid) : Inv cfg st' fib refs unr :=
+    (hp : st'.dests.Perm st.dests) (hi : st'.invalid = st.invalid) (hdf : st'.deferring = st.deferring) :
+    Inv cfg st' fib refs unr :=
   ⟨(hp.map _).nodup_iff.mpr h.nodup,
    fun d hd => h.sorted d (hp.mem_iff.mp hd),
    fun d hd => h.flags d (hp.mem_iff.mp hd),
-   fun p => by rw [lookupDest_perm hp h.nodup]; exact h.cells p,
+   fun p => by rw [lookupDest_perm hp h.nodup, hdf]; exact h.cells p,
    fun a => by rw [usesAll_perm hp]; exact h.refs a,
-   fun a => by rw [hi]; exact h.inval a⟩
+   fun a => by rw [hi]; exact h.inval a,
+   h.keys⟩
 
 theorem Inv.transfer {cfg st fib refs unr} (h : Inv cfg st fib refs unr) {fib2 : Fib} {refs2 : Refs}
-    (hf : ∀ t q, fibGet fib2 t q = fibGet fib t q) (hr : ∀ a, refGet refs2 a = refGet refs a) :
+    (hf : ∀ t q, fibGet fib2 t q = fibGet fib t q) (hr : ∀ a, refGet refs2 a = refGet refs a)
+    (hk : ∀ e ∈ fib2, goodKey cfg e.1) :
     Inv cfg st fib2 refs2 unr :=
   ⟨h.nodup, h.sorted, h.flags, fun p => (h.cells p).transfer (fun k _ => hf k.1 k.2),
-   fun a => by rw [hr a]; exact h.refs a, h.inval⟩
+   fun a => by rw [hr a]; exact h.refs a, h.inval, hk⟩
 
 def destLeM (a b : Dest) : Bool := lex3 (a.pfx.fam, a.pfx.id, 0) (b.pfx.fam, b.pfx.id, 0)
 
@@ -2655,21 +3234,95 @@ theorem sortBy_map_destObs (l : List Dest) : sortBy destLe (l.map destObs) = (so
 theorem checkFrom_run_canon {cfg : Cfg} (hc : cfg.wf = true) (ops : List Op) :
     ∀ (st : St) (fib : Fib) (refs : Refs) (unr : List Addr) (i : Nat),
       ops.all (Op.wf cfg) = true → Inv cfg st fib refs unr →
-      checkFrom cfg i fib refs unr ops ((obsOfRun (runFrom cfg st ops)).map canonStep) = .ok := by
+      checkFrom cfg i st.deferring fib refs unr ops ((obsOfRun (runFrom cfg st ops)).map canonStep) = .ok := by
   induction ops with
   | nil => intro st fib refs unr i _ _; simp [runFrom, obsOfRun, checkFrom]
   | cons op ops ih =>
     intro st fib refs unr i hwf h
     simp only [all_cons, Bool.and_eq_true] at hwf
-    obtain ⟨refs', e1, hinv⟩ := step_inv hc op hwf.1 h
+    obtain ⟨refs', e1, hinv, hdf⟩ := step_inv hc op hwf.1 h
     obtain ⟨refs'', e2, g2⟩ := refReplay_canon e1
+    have hkeys : ∀ e ∈ fibReplay fib (sortBy fibLe (fibReqs (step cfg st op).2)), goodKey cfg e.1 := by
+      apply fibReplay_keys _ _ h.keys
+      intro r hr
+      have hr' := (sortBy_perm fibLe _).mem_iff.mp hr
+      have := hinv.keys
+      -- the requests of the step are good: they are among the keys of the replayed list or directly
+      exact (fibReplay_reqs_good (step cfg st op).2 fib hinv.keys) r hr'
     have hinv2 : Inv cfg (step cfg st op).1 (fibReplay fib (sortBy fibLe (fibReqs (step cfg st op).2))) refs''
-        (report unr op) := hinv.transfer (fun t q => fibGet_sortBy fib _ t q) g2
+        (report unr op) := hinv.transfer (fun t q => fibGet_sortBy fib _ t q) g2 hkeys
     have hinv3 := hinv2.perm { (step cfg st op).1 with dests := sortBy destLeM (step cfg st op).1.dests }
-      (sortBy_perm destLeM _) rfl
+      (sortBy_perm destLeM _) rfl rfl
     have hcs := checkStep_ok hinv3
     simp only [runFrom, obsOfRun, map_cons, obsOfStep, canonStep, checkFrom, e2]
-    rw [sortBy_map_destObs, hcs]
-    exact ih _ _ _ _ _ hwf.2 hinv2
+    rw [sortBy_map_destObs]
+    rw [hdf] at hcs
+    rw [hcs]
+    have := ih _ _ _ _ (i + 1) hwf.2 hinv2
+    rw [hdf] at this
+    exact this
+
+
+-- ---------------------------------------------------------------- service loop: route events, feed
+
+theorem svcRunE_refines (reqs : List (Option (Bool × Addr))) :
+    ∀ (w : Watched) (r : Refs), (∀ a, watchedGet w a = refGet r a) →
+      (svcRunE w reqs).1 = (svcExpectE r reqs).1 ∧
+      ∀ a, watchedGet (svcRunE w reqs).2 a = refGet (svcExpectE r reqs).2 a := by
+  induction reqs with
+  | nil => intro w r h; exact ⟨rfl, h⟩
+  | cons x reqs ih =>
+    intro w r h
+    cases x with
+    | none =>
+      simp only [svcRunE, svcExpectE]
+      have := ih w r h
+      exact ⟨by rw [this.1], this.2⟩
+    | some y =>
+      obtain ⟨k, a⟩ := y
+      cases k
+      · simp only [svcRunE, svcExpectE]
+        have := ih (svcUnregister w a) (refSet r a (refGet r a - 1)) (by
+          intro b; rw [svcUnregister_get, refGet_refSet, h a, h b])
+        exact ⟨by rw [this.1], this.2⟩
+      · simp only [svcRunE, svcExpectE]
+        have := ih (svcRegister w a).1 (refSet r a (refGet r a + 1)) (by
+          intro b; rw [svcRegister_get, refGet_refSet, h a, h b])
+        refine ⟨?_, this.2⟩
+        rw [this.1]
+        simp [svcRegister, h a]
+
+theorem nhtOfRun_eq (cfg : Cfg) (ops : List Op) :
+    ∀ st, nhtOfRun (runFrom cfg st ops) = nhtReqs (allReqs cfg st ops) := by
+  induction ops with
+  | nil => intro st; rfl
+  | cons op ops ih =>
+    intro st
+    simp only [runFrom, allReqs, nhtReqs_append]
+    rw [← ih]
+    simp [nhtOfRun]
+
+theorem lastRib_run (cfg : Cfg) (ops : List Op) :
+    ∀ st, ops ≠ [] → lastRib (obsOfRun (runFrom cfg st ops)) = (stAfter cfg st ops).dests.map destObs := by
+  induction ops with
+  | nil => intro st h; exact absurd rfl h
+  | cons op ops ih =>
+    intro st _
+    cases ops with
+    | nil => simp [runFrom, obsOfRun, obsOfStep, lastRib, stAfter]
+    | cons op2 ops2 =>
+      have := ih (step cfg st op).1 (by simp)
+      simp only [stAfter] at this ⊢
+      rw [← this]
+      simp only [lastRib, runFrom, obsOfRun, map_cons]
+      rw [getLast?_cons_cons]
+
+theorem uses_perm {a : Addr} {l l' : List DestObs} (hp : l'.Perm l) : uses l' a = uses l a := by
+  unfold uses
+  induction hp with
+  | nil => rfl
+  | cons x _ ih => simp [ih]
+  | swap x y l => simp; omega
+  | trans _ _ ih1 ih2 => rw [ih1, ih2]
 
 end Rbgp.Fib
